@@ -340,683 +340,952 @@ Section ColumnRefinement.
   Qed.
 End ColumnRefinement.
 
-(** * 3. The pointwise specification over an abstract differential ring *)
+(** * 3. The specification over an abstract commutative differential ring [A] of smooth fields *)
 Section Ring.
-  Context {F : Type} {o : Ops F} {Fc : FieldC o}.
-  Add Field FFring : (field_c : FieldTh o).
-  Hypothesis two_nz : two <> 0.
-  Variable P : Type.
-  Notation fld := (P -> F).
-  Variables dlon dmu : fld -> fld.
-  Variable mu : fld.
-  Variable a : F.
-  Hypothesis a_nz : a <> 0.
-  Hypothesis dlon_lin : linear dlon.
-  Hypothesis dmu_lin : linear dmu.
-  Hypothesis dlon_leib : forall (f g : fld) p, dlon (fun q => f q * g q) p = dlon f p * g p + f p * dlon g p.
-  Hypothesis dmu_leib : forall (f g : fld) p, dmu (fun q => f q * g q) p = dmu f p * g p + f p * dmu g p.
-  Hypothesis d_commute : forall (f : fld) p, dlon (dmu f) p = dmu (dlon f) p.
-  (** mu = sin(lat):  d mu / dlon = 0,  cos(lat) d mu / dlat = cos^2(lat), away from the poles *)
-  Hypothesis dlon_mu : forall p, dlon mu p = 0.
-  Hypothesis dmu_mu : forall p, dmu mu p = cos2 P mu p.
-  Hypothesis cos2_nz : forall p, cos2 P mu p <> 0.
+  Context {A : Type} {o : Ops A}.
+  Hypothesis Aring : ring_theory (@f0 A o) f1 fadd fmul fsub fopp (@eq A).
+  Add Ring ARing : Aring.
+  Hypothesis div_def : forall x y : A, x / y = x * finv y.
+  Variables dlon dmu : A -> A.
+  Variables mu a : A.
+  Notation c2 := (cos2 mu).
+  Notation s2 := (sec2 mu).
+  Notation ia := (finv a).
+  Notation itwo := (finv (@two A o)).
+  (** the units that are divided by *)
+  Hypothesis inv_a : ia * a = 1.
+  Hypothesis inv_c2 : finv c2 * c2 = 1.
+  Hypothesis inv_two : itwo * two = 1.
+  (** two commuting derivations *)
+  Hypothesis dlon_add : forall x y, dlon (x + y) = dlon x + dlon y.
+  Hypothesis dmu_add : forall x y, dmu (x + y) = dmu x + dmu y.
+  Hypothesis dlon_leib : forall x y, dlon (x * y) = dlon x * y + x * dlon y.
+  Hypothesis dmu_leib : forall x y, dmu (x * y) = dmu x * y + x * dmu y.
+  Hypothesis d_commute : forall x, dlon (dmu x) = dmu (dlon x).
+  (** mu = sin(lat):  d mu / dlon = 0,  cos(lat) d mu / dlat = cos^2(lat); the radius is a constant *)
+  Hypothesis dlon_mu : dlon mu = 0.
+  Hypothesis dmu_mu : dmu mu = c2.
+  Hypothesis dlon_a : dlon a = 0.
+  Hypothesis dmu_a : dmu a = 0.
 
-  Notation c2 := (cos2 P mu).
-  Notation s2 := (sec2 P mu).
+  (** constant fields *)
+  Definition cst (k : A) : Prop := dlon k = 0 /\ dmu k = 0.
 
-  (** generic facts about a derivation *)
+  Lemma cancel_double (x : A) : x = x + x -> x = 0.
+  Proof.
+    intros H. assert (E : x + x - x = x - x) by (rewrite <- H; reflexivity).
+    transitivity (x + x - x); [ring|]. rewrite E. ring.
+  Qed.
+  Lemma sumn_zero_ring n (f : nat -> A) : (forall i, (i < n)%nat -> f i = 0) -> sumn n f = 0.
+  Proof.
+    induction n as [|n IH]; intros H; cbn [sumn]; [reflexivity|].
+    rewrite IH, H by auto. ring.
+  Qed.
+  Lemma sumn_ext_ring n (f g : nat -> A) : (forall i, (i < n)%nat -> f i = g i) -> sumn n f = sumn n g.
+  Proof.
+    induction n as [|n IH]; intros H; cbn [sumn]; [reflexivity|]. rewrite IH, H by auto. reflexivity.
+  Qed.
+  Lemma sumn_pull n (cf g : nat -> A) (m : A) :
+    sumn n (fun j => cf j * (g j * m)) = m * sumn n (fun j => cf j * g j).
+  Proof. induction n as [|n IH]; cbn [sumn]; [ring|]. rewrite IH. ring. Qed.
+  Lemma half_double (x : A) : itwo * (x + x) = x.
+  Proof. transitivity ((itwo * two) * x); [unfold two; ring|]. rewrite inv_two. ring. Qed.
+
   Section Deriv.
-    Variable D : fld -> fld.
-    Hypothesis D_lin : linear D.
-    Hypothesis D_leib : forall (f g : fld) p, D (fun q => f q * g q) p = D f p * g p + f p * D g p.
-    Lemma D_ext (f g : fld) p : (forall q, f q = g q) -> D f p = D g p.
-    Proof. intros H. now apply (lin_ext D D_lin). Qed.
-    Lemma D_one p : D (fun _ => 1) p = 0.
+    Variable D : A -> A.
+    Hypothesis D_add : forall x y, D (x + y) = D x + D y.
+    Hypothesis D_leib : forall x y, D (x * y) = D x * y + x * D y.
+    Lemma D_zero : D 0 = 0.
+    Proof. apply cancel_double. rewrite <- D_add. f_equal. ring. Qed.
+    Lemma D_one : D 1 = 0.
     Proof.
-      pose proof (D_leib (fun _ => 1) (fun _ => 1) p) as E. cbv beta in E.
-      rewrite (D_ext (fun _ => 1 * 1) (fun _ => 1) p) in E by (intros; ring).
-      set (z := D (fun _ : P => 1) p) in *.
-      assert (X0 : z - z = z * 1 + 1 * z - z) by (rewrite <- E; reflexivity).
-      transitivity (z * 1 + 1 * z - z); [ring|]. rewrite <- X0. ring.
+      apply cancel_double. transitivity (D (1 * 1)); [f_equal; ring|]. rewrite D_leib. ring.
     Qed.
-    Lemma D_const k p : D (fun _ => k) p = 0.
-    Proof. rewrite (lin_scal D D_lin (fun _ => k) (fun _ => 1) k) by (intros; ring). rewrite D_one. ring. Qed.
-    Lemma D_zero_fn (f : fld) p : (forall q, f q = 0) -> D f p = 0.
-    Proof. intros H. rewrite (D_ext f (fun _ => 0) p H). apply D_const. Qed.
-    Lemma D_add (f g : fld) p : D (fun q => f q + g q) p = D f p + D g p.
-    Proof. rewrite (lin_comb D D_lin _ f g 1) by (intros; ring). ring. Qed.
-    Lemma D_sub (f g : fld) p : D (fun q => f q - g q) p = D f p - D g p.
-    Proof. rewrite (lin_comb D D_lin _ f g (- (1))) by (intros; ring). ring. Qed.
-    Lemma D_opp (f : fld) p : D (fun q => - f q) p = - D f p.
-    Proof. rewrite (lin_scal D D_lin _ f (- (1))) by (intros; ring). ring. Qed.
-    Lemma D_scal k (f : fld) p : D (fun q => k * f q) p = k * D f p.
-    Proof. now rewrite (lin_scal D D_lin _ f k) by (intros; ring). Qed.
-    Lemma D_scal_r k (f : fld) p : D (fun q => f q * k) p = D f p * k.
-    Proof. rewrite (lin_scal D D_lin _ f k) by (intros; ring). ring. Qed.
-    Lemma D_div_const k (f : fld) p : D (fun q => f q / k) p = D f p / k.
-    Proof. rewrite (lin_scal D D_lin _ f (finv k)) by (intros; rewrite fdiv_def; ring). rewrite fdiv_def. ring. Qed.
-    Lemma D_sumn n (cf : nat -> F) (fs : nat -> fld) p :
-      D (fun q => sumn n (fun j => cf j * fs j q)) p = sumn n (fun j => cf j * D (fs j) p).
+    Lemma D_opp x : D (- x) = - D x.
     Proof.
-      induction n as [|n IH]; cbn [sumn]; [apply D_const|].
-      rewrite D_add, IH, D_scal. reflexivity.
+      assert (H : D (x + - x) = D x + D (- x)) by apply D_add.
+      replace (x + - x) with (@f0 A o) in H by ring. rewrite D_zero in H.
+      transitivity (D x + D (- x) - D x); [ring|]. rewrite <- H. ring.
     Qed.
-    Lemma D_cos2 p : D c2 p = - (two * mu p * D mu p).
+    Lemma D_sub x y : D (x - y) = D x - D y.
+    Proof. replace (x - y) with (x + - y) by ring. rewrite D_add, D_opp. ring. Qed.
+    Lemma D_scal k x : D k = 0 -> D (k * x) = k * D x.
+    Proof. intros H. rewrite D_leib, H. ring. Qed.
+    Lemma D_scal_r k x : D k = 0 -> D (x * k) = D x * k.
+    Proof. intros H. rewrite D_leib, H. ring. Qed.
+    Lemma D_inv u iu : iu * u = 1 -> D u = 0 -> D iu = 0.
     Proof.
-      unfold cos2. rewrite D_sub, D_const, D_leib. unfold two. ring.
+      intros Hu H. pose proof (D_leib iu u) as E. rewrite Hu, D_one, H in E.
+      transitivity ((D iu * u + iu * 0) * iu); [|rewrite <- E; ring].
+      transitivity (D iu * (iu * u)); [rewrite Hu; ring|ring].
     Qed.
-    Lemma s2c2 p : s2 p * c2 p = 1.
-    Proof. unfold sec2. field. apply cos2_nz. Qed.
-    Lemma D_sec2 p : D s2 p = - (s2 p * s2 p * D c2 p).
+    Lemma D_sumn n (cf fs : nat -> A) :
+      (forall j, D (cf j) = 0) -> D (sumn n (fun j => cf j * fs j)) = sumn n (fun j => cf j * D (fs j)).
     Proof.
-      pose proof (D_leib s2 c2 p) as E.
-      rewrite (D_ext (fun q => s2 q * c2 q) (fun _ => 1) p) in E by (intros; apply s2c2).
-      rewrite D_one in E.
-      assert (H1 : D s2 p * c2 p = - (s2 p * D c2 p)).
-      { transitivity ((D s2 p * c2 p + s2 p * D c2 p) - s2 p * D c2 p); [ring|]. rewrite <- E. ring. }
-      transitivity (D s2 p * c2 p * s2 p).
-      { transitivity (D s2 p * (s2 p * c2 p)); [rewrite s2c2; ring | ring]. }
-      rewrite H1. ring.
+      intros H. induction n as [|n IH]; cbn [sumn]; [apply D_zero|].
+      rewrite D_add, IH, D_scal by apply H. reflexivity.
     Qed.
+    Lemma D_cos2 : D c2 = - (two * mu * D mu).
+    Proof. unfold cos2. rewrite D_sub, D_one, D_leib. unfold two. ring. Qed.
   End Deriv.
 
-  Lemma dlon_c2 p : dlon c2 p = 0.
-  Proof. rewrite (D_cos2 dlon dlon_lin dlon_leib), dlon_mu. ring. Qed.
-  Lemma dmu_c2 p : dmu c2 p = - (two * mu p * c2 p).
-  Proof. now rewrite (D_cos2 dmu dmu_lin dmu_leib), dmu_mu. Qed.
-  Lemma dlon_s2 p : dlon s2 p = 0.
-  Proof. rewrite (D_sec2 dlon dlon_lin dlon_leib), dlon_c2. ring. Qed.
-  Lemma dmu_s2 p : dmu s2 p = two * mu p * s2 p.
+  Lemma s2c2 : s2 * c2 = 1.
+  Proof. unfold sec2. rewrite div_def. transitivity (finv c2 * c2); [ring|exact inv_c2]. Qed.
+  Lemma D_sec2 (D : A -> A) :
+    (forall x y, D (x + y) = D x + D y) -> (forall x y, D (x * y) = D x * y + x * D y) ->
+    D s2 = - (s2 * s2 * D c2).
   Proof.
-    rewrite (D_sec2 dmu dmu_lin dmu_leib), dmu_c2.
-    transitivity (two * mu p * s2 p * (s2 p * c2 p)); [ring|]. rewrite s2c2. ring.
+    intros Da Dl. pose proof (Dl s2 c2) as E. rewrite s2c2, (D_one D Dl) in E.
+    assert (H1 : D s2 * c2 = - (s2 * D c2)).
+    { transitivity ((D s2 * c2 + s2 * D c2) - s2 * D c2); [ring|]. rewrite <- E. ring. }
+    transitivity (D s2 * c2 * s2).
+    { transitivity (D s2 * (s2 * c2)); [rewrite s2c2; ring | ring]. }
+    rewrite H1. ring.
+  Qed.
+  Lemma dlon_c2 : dlon c2 = 0.
+  Proof. rewrite (D_cos2 dlon dlon_add dlon_leib), dlon_mu. ring. Qed.
+  Lemma dmu_c2 : dmu c2 = - (two * mu * c2).
+  Proof. now rewrite (D_cos2 dmu dmu_add dmu_leib), dmu_mu. Qed.
+  Lemma dlon_s2 : dlon s2 = 0.
+  Proof. rewrite (D_sec2 dlon dlon_add dlon_leib), dlon_c2. ring. Qed.
+  Lemma dmu_s2 : dmu s2 = two * mu * s2.
+  Proof.
+    rewrite (D_sec2 dmu dmu_add dmu_leib), dmu_c2.
+    transitivity (two * mu * s2 * (s2 * c2)); [ring|]. rewrite s2c2. ring.
+  Qed.
+  Lemma dlon_ia : dlon ia = 0. Proof. exact (D_inv dlon dlon_leib a ia inv_a dlon_a). Qed.
+  Lemma dmu_ia : dmu ia = 0. Proof. exact (D_inv dmu dmu_leib a ia inv_a dmu_a). Qed.
+  Lemma dlon_div_a x : dlon (x / a) = dlon x / a.
+  Proof. rewrite !div_def, dlon_leib, dlon_ia. ring. Qed.
+  Lemma dmu_div_a x : dmu (x / a) = dmu x / a.
+  Proof. rewrite !div_def, dmu_leib, dmu_ia. ring. Qed.
+
+  (** closure of the constants *)
+  Lemma cst_0 : cst 0. Proof. split; [apply (D_zero dlon dlon_add)|apply (D_zero dmu dmu_add)]. Qed.
+  Lemma cst_1 : cst 1. Proof. split; [apply (D_one dlon dlon_leib)|apply (D_one dmu dmu_leib)]. Qed.
+  Lemma cst_add x y : cst x -> cst y -> cst (x + y).
+  Proof. intros [H1 H2] [H3 H4]. split; [rewrite dlon_add, H1, H3|rewrite dmu_add, H2, H4]; ring. Qed.
+  Lemma cst_opp x : cst x -> cst (- x).
+  Proof. intros [H1 H2]. split; [rewrite (D_opp dlon dlon_add), H1|rewrite (D_opp dmu dmu_add), H2]; ring. Qed.
+  Lemma cst_sub x y : cst x -> cst y -> cst (x - y).
+  Proof. intros [H1 H2] [H3 H4]. split; [rewrite (D_sub dlon dlon_add), H1, H3|rewrite (D_sub dmu dmu_add), H2, H4]; ring. Qed.
+  Lemma cst_mul x y : cst x -> cst y -> cst (x * y).
+  Proof. intros [H1 H2] [H3 H4]. split; [rewrite dlon_leib, H1, H3|rewrite dmu_leib, H2, H4]; ring. Qed.
+  Lemma cst_two : cst two. Proof. unfold two. apply cst_add; apply cst_1. Qed.
+  Lemma cst_itwo : cst itwo.
+  Proof.
+    destruct cst_two as [H1 H2].
+    split; [exact (D_inv dlon dlon_leib two itwo inv_two H1)|exact (D_inv dmu dmu_leib two itwo inv_two H2)].
+  Qed.
+  Lemma cst_half x : cst x -> cst (x / two).
+  Proof. intros H. rewrite div_def. apply cst_mul; [exact H|apply cst_itwo]. Qed.
+  Lemma cst_a : cst a. Proof. split; assumption. Qed.
+  Lemma cst_sumn n (f : nat -> A) : (forall j, cst (f j)) -> cst (sumn n f).
+  Proof. intros H. induction n as [|n IH]; cbn [sumn]; [apply cst_0|apply cst_add; auto]. Qed.
+  Lemma cst_geo_weights K R (ls : nat -> A) j k :
+    cst R -> (forall i, cst (ls i)) -> cst (geo_weights K R ls j k).
+  Proof.
+    intros HR Hl. assert (Ha : forall i, cst (alpha K ls i)).
+    { intros i. unfold alpha. destruct (Nat.ltb (S i) K); [apply cst_half, cst_sub; apply Hl|apply cst_opp, Hl]. }
+    unfold geo_weights. apply cst_mul; [exact HR|].
+    destruct (Nat.eqb j k); [apply Ha|]. destruct (Nat.ltb j k); [apply cst_add; apply Ha|apply cst_0].
   Qed.
 
   (** ** the divergence of the velocity built from (psi, chi) is lap(chi), its curl lap(psi) *)
-  Theorem div_of_velocity (psi chi : fld) p :
-    sdiv P dlon dmu mu a (vel_u P dlon dmu a psi chi) (vel_v P dlon dmu a psi chi) p = slap P dlon dmu mu a chi p.
+  Theorem div_of_velocity (psi chi : A) :
+    sdiv dlon dmu mu a (vel_u dlon dmu a psi chi) (vel_v dlon dmu a psi chi) = slap dlon dmu mu a chi.
   Proof.
     unfold slap, sdiv, vel_u, vel_v, grad_x, grad_y.
-    rewrite (D_sub dlon dlon_lin), (D_add dmu dmu_lin), !(D_div_const dlon dlon_lin), !(D_div_const dmu dmu_lin).
-    rewrite d_commute. rewrite !fdiv_def. ring.
+    rewrite (D_sub dlon dlon_add), dmu_add, !dlon_div_a, !dmu_div_a, d_commute. rewrite !div_def. ring.
   Qed.
-  Theorem curl_of_velocity (psi chi : fld) p :
-    scurl P dlon dmu mu a (vel_u P dlon dmu a psi chi) (vel_v P dlon dmu a psi chi) p = slap P dlon dmu mu a psi p.
+  Theorem curl_of_velocity (psi chi : A) :
+    scurl dlon dmu mu a (vel_u dlon dmu a psi chi) (vel_v dlon dmu a psi chi) = slap dlon dmu mu a psi.
   Proof.
     unfold slap, scurl, sdiv, vel_u, vel_v, grad_x, grad_y.
-    rewrite (D_add dlon dlon_lin), (D_sub dmu dmu_lin), !(D_div_const dlon dlon_lin), !(D_div_const dmu dmu_lin).
-    rewrite d_commute. rewrite !fdiv_def. ring.
+    rewrite dlon_add, (D_sub dmu dmu_add), !dlon_div_a, !dmu_div_a, d_commute. rewrite !div_def. ring.
   Qed.
 
   (** ** horizontal advection: the code's flux form  X div(v) - div(v X)  is  - v . grad X *)
-  Theorem flux_form_is_advective_form (Uc Vc X : fld) p :
-    X p * sdiv P dlon dmu mu a Uc Vc p - sdiv P dlon dmu mu a (fun q => Uc q * X q) (fun q => Vc q * X q) p
-    = - (s2 p * (Uc p * dlon X p + Vc p * dmu X p) / a).
-  Proof. unfold sdiv. rewrite dlon_leib, dmu_leib, !fdiv_def. ring. Qed.
+  Theorem flux_form_is_advective_form (Uc Vc X : A) :
+    X * sdiv dlon dmu mu a Uc Vc - sdiv dlon dmu mu a (Uc * X) (Vc * X)
+    = - (s2 * (Uc * dlon X + Vc * dmu X) / a).
+  Proof. unfold sdiv. rewrite dlon_leib, dmu_leib, !div_def. ring. Qed.
 
   (** the operators as the code applies them: div_cos_lat / curl_cos_lat act on the sec^2-scaled
       components (M sec^2, N sec^2) through d/dlon and sec(lat) d/dlat(cos^2 . ) *)
-  Definition div_cos_lat_pt (A B : fld) : fld := fun p => (dlon A p + s2 p * dmu (fun q => c2 q * B q) p) / a.
-  Definition curl_cos_lat_pt (A B : fld) : fld := fun p => (dlon B p - s2 p * dmu (fun q => c2 q * A q) p) / a.
-  Theorem div_cos_lat_is_sdiv (M N : fld) p :
-    div_cos_lat_pt (fun q => M q * s2 q) (fun q => N q * s2 q) p = sdiv P dlon dmu mu a M N p.
-  Proof.
-    unfold div_cos_lat_pt, sdiv.
-    rewrite (D_ext dmu dmu_lin (fun q => c2 q * (N q * s2 q)) N p)
-      by (intros q; transitivity (N q * (s2 q * c2 q)); [ring|rewrite s2c2; ring]).
-    rewrite dlon_leib, dlon_s2, !fdiv_def. ring.
-  Qed.
-  Theorem curl_cos_lat_is_scurl (M N : fld) p :
-    curl_cos_lat_pt (fun q => M q * s2 q) (fun q => N q * s2 q) p = scurl P dlon dmu mu a M N p.
-  Proof.
-    unfold curl_cos_lat_pt, scurl.
-    rewrite (D_ext dmu dmu_lin (fun q => c2 q * (M q * s2 q)) M p)
-      by (intros q; transitivity (M q * (s2 q * c2 q)); [ring|rewrite s2c2; ring]).
-    rewrite dlon_leib, dlon_s2, !fdiv_def. ring.
-  Qed.
+  Definition div_cos_lat_pt (X Y : A) : A := (dlon X + s2 * dmu (c2 * Y)) / a.
+  Definition curl_cos_lat_pt (X Y : A) : A := (dlon Y - s2 * dmu (c2 * X)) / a.
+  Lemma c2_s2_cancel (N : A) : c2 * (N * s2) = N.
+  Proof. transitivity (N * (s2 * c2)); [ring|rewrite s2c2; ring]. Qed.
+  Theorem div_cos_lat_is_sdiv (M N : A) :
+    div_cos_lat_pt (M * s2) (N * s2) = sdiv dlon dmu mu a M N.
+  Proof. unfold div_cos_lat_pt, sdiv. rewrite c2_s2_cancel, dlon_leib, dlon_s2, !div_def. ring. Qed.
+  Theorem curl_cos_lat_is_scurl (M N : A) :
+    curl_cos_lat_pt (M * s2) (N * s2) = scurl dlon dmu mu a M N.
+  Proof. unfold curl_cos_lat_pt, scurl. rewrite c2_s2_cancel, dlon_leib, dlon_s2, !div_def. ring. Qed.
 
-  Theorem laplacian_of_constant k p : slap P dlon dmu mu a (fun _ => k) p = 0.
+  Theorem laplacian_of_constant k : cst k -> slap dlon dmu mu a k = 0.
+  Proof.
+    intros [H1 H2]. unfold slap, sdiv, grad_x, grad_y. rewrite H1, H2, !div_def.
+    replace (0 * ia) with (@f0 A o) by ring. rewrite (D_zero dlon dlon_add), (D_zero dmu dmu_add). ring.
+  Qed.
+  Lemma slap_add (f g : A) : slap dlon dmu mu a (f + g) = slap dlon dmu mu a f + slap dlon dmu mu a g.
   Proof.
     unfold slap, sdiv, grad_x, grad_y.
-    rewrite (D_zero_fn dlon dlon_lin dlon_leib) by (intros; rewrite (D_const dlon dlon_lin dlon_leib), fdiv_def; ring).
-    rewrite (D_zero_fn dmu dmu_lin dmu_leib) by (intros; rewrite (D_const dmu dmu_lin dmu_leib), fdiv_def; ring).
-    rewrite fdiv_def. ring.
-  Qed.
-  Lemma slap_add (f g : fld) p :
-    slap P dlon dmu mu a (fun q => f q + g q) p = slap P dlon dmu mu a f p + slap P dlon dmu mu a g p.
-  Proof.
-    unfold slap, sdiv, grad_x, grad_y.
-    rewrite (D_ext dlon dlon_lin (fun q => dlon (fun q0 => f q0 + g q0) q / a) (fun q => dlon f q / a + dlon g q / a) p)
-      by (intros; rewrite (D_add dlon dlon_lin), !fdiv_def; ring).
-    rewrite (D_ext dmu dmu_lin (fun q => dmu (fun q0 => f q0 + g q0) q / a) (fun q => dmu f q / a + dmu g q / a) p)
-      by (intros; rewrite (D_add dmu dmu_lin), !fdiv_def; ring).
-    rewrite (D_add dlon dlon_lin), (D_add dmu dmu_lin), !fdiv_def. ring.
-  Qed.
-  Lemma slap_ext (f g : fld) p : (forall q, f q = g q) -> slap P dlon dmu mu a f p = slap P dlon dmu mu a g p.
-  Proof.
-    intros H. unfold slap, sdiv, grad_x, grad_y.
-    rewrite (D_ext dlon dlon_lin (fun q => dlon f q / a) (fun q => dlon g q / a) p)
-      by (intros; now rewrite (D_ext dlon dlon_lin f g _ H)).
-    rewrite (D_ext dmu dmu_lin (fun q => dmu f q / a) (fun q => dmu g q / a) p)
-      by (intros; now rewrite (D_ext dmu dmu_lin f g _ H)).
-    reflexivity.
+    rewrite dlon_add, dmu_add, !div_def.
+    replace ((dlon f + dlon g) * ia) with (dlon f * ia + dlon g * ia) by ring.
+    replace ((dmu f + dmu g) * ia) with (dmu f * ia + dmu g * ia) by ring.
+    rewrite dlon_add, dmu_add. ring.
   Qed.
 
   (** ** zonal fields: functions of mu with a known derivative *)
-  Definition zon (f : fld) : Prop := forall p, dlon f p = 0.
+  Definition zon (f : A) : Prop := dlon f = 0.
   (** [zd f f'] : f is zonal and cos(lat) d f/dlat = cos^2 * f'  (f' = df/dmu) *)
-  Definition zd (f f' : fld) : Prop := zon f /\ forall p, dmu f p = c2 p * f' p.
+  Definition zd (f f' : A) : Prop := zon f /\ dmu f = c2 * f'.
 
-  Lemma zon_ext (f g : fld) : (forall q, f q = g q) -> zon f -> zon g.
-  Proof. intros H Hf p. rewrite <- (D_ext dlon dlon_lin f g p H). apply Hf. Qed.
-  Lemma zon_const k : zon (fun _ => k).
-  Proof. intros p. apply (D_const dlon dlon_lin dlon_leib). Qed.
+  Lemma zon_cst k : cst k -> zon k. Proof. intros [H _]. exact H. Qed.
+  Lemma zon_0 : zon 0. Proof. apply zon_cst, cst_0. Qed.
   Lemma zon_mu : zon mu. Proof. exact dlon_mu. Qed.
-  Lemma zon_add (f g : fld) : zon f -> zon g -> zon (fun q => f q + g q).
-  Proof. intros Hf Hg p. rewrite (D_add dlon dlon_lin), Hf, Hg. ring. Qed.
-  Lemma zon_sub (f g : fld) : zon f -> zon g -> zon (fun q => f q - g q).
-  Proof. intros Hf Hg p. rewrite (D_sub dlon dlon_lin), Hf, Hg. ring. Qed.
-  Lemma zon_mul (f g : fld) : zon f -> zon g -> zon (fun q => f q * g q).
-  Proof. intros Hf Hg p. rewrite dlon_leib, Hf, Hg. ring. Qed.
-  Lemma zon_divc k (f : fld) : zon f -> zon (fun q => f q / k).
-  Proof. intros Hf p. rewrite (D_div_const dlon dlon_lin), Hf, fdiv_def. ring. Qed.
-  Lemma zon_dmu (f : fld) : zon f -> zon (dmu f).
-  Proof. intros Hf p. rewrite d_commute. apply (D_zero_fn dmu dmu_lin dmu_leib). exact Hf. Qed.
+  Lemma zon_add f g : zon f -> zon g -> zon (f + g).
+  Proof. unfold zon. intros Hf Hg. rewrite dlon_add, Hf, Hg. ring. Qed.
+  Lemma zon_sub f g : zon f -> zon g -> zon (f - g).
+  Proof. unfold zon. intros Hf Hg. rewrite (D_sub dlon dlon_add), Hf, Hg. ring. Qed.
+  Lemma zon_opp f : zon f -> zon (- f).
+  Proof. unfold zon. intros Hf. rewrite (D_opp dlon dlon_add), Hf. ring. Qed.
+  Lemma zon_mul f g : zon f -> zon g -> zon (f * g).
+  Proof. unfold zon. intros Hf Hg. rewrite dlon_leib, Hf, Hg. ring. Qed.
+  Lemma zon_dmu f : zon f -> zon (dmu f).
+  Proof. unfold zon. intros Hf. rewrite d_commute, Hf. apply (D_zero dmu dmu_add). Qed.
   Lemma zon_c2 : zon c2. Proof. exact dlon_c2. Qed.
   Lemma zon_s2 : zon s2. Proof. exact dlon_s2. Qed.
-
-  (** polynomials in mu *)
-  Theorem zonal_polynomial_derivative (cs : list F) :
-    zd (fun p => peval cs (mu p)) (fun p => pdiff cs (mu p)).
+  Lemma zon_ia : zon ia. Proof. exact dlon_ia. Qed.
+  Lemma zon_two : zon two. Proof. apply zon_cst, cst_two. Qed.
+  (** the mu-derivative of a zonal field is zonal *)
+  Lemma zd_zon' f f' : zd f f' -> zon f'.
   Proof.
-    induction cs as [|c0 r [IHz IHd]]; cbn [peval pdiff].
-    - split; [apply zon_const|]. intros p. rewrite (D_const dmu dmu_lin dmu_leib). ring.
-    - split.
-      + apply zon_add; [apply zon_const|]. apply zon_mul; [apply zon_mu|exact IHz].
-      + intros p. rewrite (D_add dmu dmu_lin), (D_const dmu dmu_lin dmu_leib), dmu_leib, dmu_mu, IHd. ring.
+    intros [Hz Hd]. pose proof (zon_dmu f Hz) as E. unfold zon in *. rewrite Hd, dlon_leib, dlon_c2 in E.
+    transitivity ((s2 * c2) * dlon f'); [rewrite s2c2; ring|].
+    transitivity (s2 * (0 * f' + c2 * dlon f')); [ring|]. rewrite E. ring.
   Qed.
 
-  (** calculus of [zd] *)
-  Lemma zd_ext (f g f' g' : fld) : (forall q, f q = g q) -> (forall q, f' q = g' q) -> zd f f' -> zd g g'.
+  Lemma zd_cst k : cst k -> zd k 0.
+  Proof. intros [H1 H2]. split; [exact H1|]. rewrite H2. ring. Qed.
+  Lemma zd_mu : zd mu 1.
+  Proof. split; [apply zon_mu|]. rewrite dmu_mu. ring. Qed.
+  Lemma zd_c2 : zd c2 (- (two * mu)).
+  Proof. split; [apply zon_c2|]. rewrite dmu_c2. ring. Qed.
+  Lemma zd_add f g f' g' : zd f f' -> zd g g' -> zd (f + g) (f' + g').
+  Proof. intros [Hf Hf'] [Hg Hg']. split; [now apply zon_add|]. rewrite dmu_add, Hf', Hg'. ring. Qed.
+  Lemma zd_mul f g f' g' : zd f f' -> zd g g' -> zd (f * g) (f' * g + f * g').
+  Proof. intros [Hf Hf'] [Hg Hg']. split; [now apply zon_mul|]. rewrite dmu_leib, Hf', Hg'. ring. Qed.
+  Lemma zd_scal k f f' : cst k -> zd f f' -> zd (k * f) (k * f').
   Proof.
-    intros H H' [Hz Hd]. split; [now apply (zon_ext f g)|].
-    intros p. rewrite <- (D_ext dmu dmu_lin f g p H), Hd, H'. reflexivity.
+    intros [H1 H2] [Hf Hf']. split; [apply zon_mul; [exact H1|exact Hf]|].
+    rewrite (D_scal dmu dmu_leib) by exact H2. rewrite Hf'. ring.
   Qed.
-  Lemma zd_const k : zd (fun _ => k) (fun _ => 0).
-  Proof. split; [apply zon_const|]. intros p. rewrite (D_const dmu dmu_lin dmu_leib). ring. Qed.
-  Lemma zd_mu : zd mu (fun _ => 1).
-  Proof. split; [apply zon_mu|]. intros p. rewrite dmu_mu. ring. Qed.
-  Lemma zd_c2 : zd c2 (fun p => - (two * mu p)).
-  Proof. split; [apply zon_c2|]. intros p. rewrite dmu_c2. ring. Qed.
-  Lemma zd_add (f g f' g' : fld) : zd f f' -> zd g g' -> zd (fun q => f q + g q) (fun q => f' q + g' q).
+  Lemma zd_eq f f' g' : f' = g' -> zd f f' -> zd f g'.
+  Proof. intros <-. auto. Qed.
+  Lemma zd_sumn n (cf fs fs' : nat -> A) :
+    (forall j, cst (cf j)) -> (forall j, zd (fs j) (fs' j)) ->
+    zd (sumn n (fun j => cf j * fs j)) (sumn n (fun j => cf j * fs' j)).
   Proof.
-    intros [Hf Hf'] [Hg Hg']. split; [now apply zon_add|].
-    intros p. rewrite (D_add dmu dmu_lin), Hf', Hg'. ring.
+    intros Hc H. induction n as [|n IH]; cbn [sumn]; [apply zd_cst, cst_0|].
+    apply zd_add; [exact IH|]. apply zd_scal; auto.
   Qed.
-  Lemma zd_mul (f g f' g' : fld) : zd f f' -> zd g g' -> zd (fun q => f q * g q) (fun q => f' q * g q + f q * g' q).
+
+  (** polynomials in mu with constant coefficients *)
+  Theorem zonal_polynomial_derivative (cs : list A) :
+    Forall cst cs -> zd (peval cs mu) (pdiff cs mu).
   Proof.
-    intros [Hf Hf'] [Hg Hg']. split; [now apply zon_mul|].
-    intros p. rewrite dmu_leib, Hf', Hg'. ring.
-  Qed.
-  Lemma zd_scal k (f f' : fld) : zd f f' -> zd (fun q => k * f q) (fun q => k * f' q).
-  Proof.
-    intros [Hf Hf']. split; [apply zon_mul; [apply zon_const|exact Hf]|].
-    intros p. rewrite (D_scal dmu dmu_lin), Hf'. ring.
-  Qed.
-  Lemma zd_sumn n (cf : nat -> F) (fs fs' : nat -> fld) :
-    (forall j, zd (fs j) (fs' j)) ->
-    zd (fun q => sumn n (fun j => cf j * fs j q)) (fun q => sumn n (fun j => cf j * fs' j q)).
-  Proof.
-    intros H. induction n as [|n IH]; cbn [sumn]; [apply zd_const|].
-    apply zd_add; [exact IH|]. apply zd_scal, H.
+    induction 1 as [|c0 r Hc Hr IH]; cbn [peval pdiff]; [apply zd_cst, cst_0|].
+    apply (zd_eq _ (0 + (1 * peval r mu + mu * pdiff r mu))); [ring|].
+    apply zd_add; [now apply zd_cst|]. apply zd_mul; [apply zd_mu|exact IH].
   Qed.
 
   (** operators on zonal fields *)
-  Lemma sdiv_zonal (A B : fld) p : zon A -> (forall q, B q = 0) -> sdiv P dlon dmu mu a A B p = 0.
+  Lemma sdiv_zonal (X Y : A) : zon X -> Y = 0 -> sdiv dlon dmu mu a X Y = 0.
+  Proof. unfold zon. intros HX ->. unfold sdiv. rewrite HX, (D_zero dmu dmu_add), div_def. ring. Qed.
+  Lemma scurl_zonal (X Y : A) : Y = 0 -> scurl dlon dmu mu a X Y = - (s2 * dmu X * ia).
+  Proof. intros ->. unfold scurl. rewrite (D_zero dlon dlon_add), div_def. ring. Qed.
+  Lemma sdiv_zonal_v (X Y : A) : zon X -> sdiv dlon dmu mu a X Y = s2 * dmu Y * ia.
+  Proof. unfold zon. intros HX. unfold sdiv. rewrite HX, div_def. ring. Qed.
+  Lemma slap_zd (E E' : A) : zd E E' -> slap dlon dmu mu a E = s2 * dmu (c2 * E') * ia * ia.
   Proof.
-    intros HA HB. unfold sdiv. rewrite HA, (D_zero_fn dmu dmu_lin dmu_leib B p HB), fdiv_def. ring.
-  Qed.
-  Lemma scurl_zonal (A B : fld) p :
-    (forall q, B q = 0) -> scurl P dlon dmu mu a A B p = - (s2 p * dmu A p / a).
-  Proof.
-    intros HB. unfold scurl. rewrite (D_zero_fn dlon dlon_lin dlon_leib B p HB), !fdiv_def. ring.
-  Qed.
-  Lemma sdiv_zonal_v (A B : fld) p : zon A -> sdiv P dlon dmu mu a A B p = s2 p * dmu B p / a.
-  Proof. intros HA. unfold sdiv. rewrite HA, !fdiv_def. ring. Qed.
-  Lemma slap_zd (E E' : fld) p :
-    zd E E' -> slap P dlon dmu mu a E p = s2 p * dmu (fun q => c2 q * E' q) p / (a * a).
-  Proof.
-    intros [Hz Hd]. unfold slap, sdiv, grad_x, grad_y.
-    rewrite (D_zero_fn dlon dlon_lin dlon_leib (fun q => dlon E q / a)) by (intros; rewrite Hz, fdiv_def; ring).
-    rewrite (D_ext dmu dmu_lin (fun q => dmu E q / a) (fun q => (c2 q * E' q) / a) p) by (intros; now rewrite Hd).
-    rewrite (D_div_const dmu dmu_lin). field. exact a_nz.
+    intros [Hz Hd]. unfold zon in Hz. unfold slap, sdiv, grad_x, grad_y.
+    rewrite dlon_div_a, dmu_div_a, Hz, Hd, (D_zero dlon dlon_add), !div_def. ring.
   Qed.
 
   (** zonal flow u = cos(lat) * w(mu): psi' = - a w, no divergent part *)
   Section ZonalFlow.
-    Variables psi chi wf wf' : fld.
-    Hypothesis Hchi : forall p, chi p = 0.
+    Variables psi chi wf wf' : A.
+    Hypothesis Hchi : chi = 0.
     Hypothesis Hw : zd wf wf'.
-    Hypothesis Hpsi : zd psi (fun p => - (a * wf p)).
-    Lemma zonal_vel_u p : vel_u P dlon dmu a psi chi p = c2 p * wf p.
+    Hypothesis Hpsi : zd psi (- (a * wf)).
+    Lemma zonal_vel_u : vel_u dlon dmu a psi chi = c2 * wf.
     Proof.
       unfold vel_u, grad_x, grad_y. destruct Hpsi as [_ Hd].
-      rewrite (D_zero_fn dlon dlon_lin dlon_leib chi p Hchi), Hd. field. exact a_nz.
+      rewrite Hchi, (D_zero dlon dlon_add), Hd, !div_def.
+      transitivity (c2 * wf * (ia * a)); [ring|]. rewrite inv_a. ring.
     Qed.
-    Lemma zonal_vel_v p : vel_v P dlon dmu a psi chi p = 0.
+    Lemma zonal_vel_v : vel_v dlon dmu a psi chi = 0.
     Proof.
-      unfold vel_v, grad_x, grad_y. destruct Hpsi as [Hz _].
-      rewrite (D_zero_fn dmu dmu_lin dmu_leib chi p Hchi), Hz, !fdiv_def. ring.
+      unfold vel_v, grad_x, grad_y. destruct Hpsi as [Hz _]. unfold zon in Hz.
+      rewrite Hchi, (D_zero dmu dmu_add), Hz, !div_def. ring.
     Qed.
     (** relative vorticity  - d(u cos)/(a dmu) *)
-    Definition zvort : fld := fun p => (two * mu p * wf p - c2 p * wf' p) / a.
-    Lemma zonal_vorticity p : slap P dlon dmu mu a psi p = zvort p.
+    Definition zvort : A := (two * mu * wf - c2 * wf') * ia.
+    Lemma zonal_vorticity : slap dlon dmu mu a psi = zvort.
     Proof.
-      rewrite (slap_zd psi _ p Hpsi). destruct Hw as [_ Hd'].
-      rewrite (D_ext dmu dmu_lin (fun q => c2 q * - (a * wf q)) (fun q => (- a) * (c2 q * wf q)) p) by (intros; ring).
-      rewrite (D_scal dmu dmu_lin), dmu_leib, dmu_c2, Hd'. unfold zvort.
-      transitivity ((s2 p * c2 p) * (two * mu p * wf p - c2 p * wf' p) / a); [field; exact a_nz|].
-      rewrite s2c2. field. exact a_nz.
+      rewrite (slap_zd psi _ Hpsi). destruct Hw as [_ Hd'].
+      replace (c2 * - (a * wf)) with ((- a) * (c2 * wf)) by ring.
+      rewrite (D_scal dmu dmu_leib) by (rewrite (D_opp dmu dmu_add), dmu_a; ring).
+      rewrite dmu_leib, dmu_c2, Hd'. unfold zvort.
+      transitivity ((s2 * c2) * (ia * a) * ((two * mu * wf - c2 * wf') * ia)); [ring|].
+      rewrite s2c2, inv_a. ring.
     Qed.
-    Lemma zonal_divergence p : slap P dlon dmu mu a chi p = 0.
-    Proof. rewrite (slap_ext chi (fun _ => 0) p Hchi). apply laplacian_of_constant. Qed.
+    Lemma zonal_divergence : slap dlon dmu mu a chi = 0.
+    Proof. rewrite Hchi. apply laplacian_of_constant, cst_0. Qed.
     Lemma zon_zvort : zon zvort.
     Proof.
-      destruct Hw as [Hz _]. unfold zvort. apply zon_divc. apply zon_sub.
-      - apply zon_mul; [apply zon_mul; [apply zon_const|apply zon_mu]|exact Hz].
-      - apply zon_mul; [apply zon_c2|]. intros p. pose proof (zon_dmu wf Hz p) as E.
-        destruct Hw as [_ Hd]. rewrite (D_ext dlon dlon_lin (dmu wf) (fun q => c2 q * wf' q) p Hd) in E.
-        rewrite dlon_leib, dlon_c2 in E.
-        assert (X0 : s2 p * (0 * wf' p + c2 p * dlon wf' p) = s2 p * 0) by (now rewrite E).
-        transitivity ((s2 p * c2 p) * dlon wf' p); [rewrite s2c2; ring|].
-        transitivity (s2 p * (0 * wf' p + c2 p * dlon wf' p)); [ring|]. rewrite X0. ring.
+      destruct Hw as [Hz _]. unfold zvort. apply zon_mul; [|apply zon_ia]. apply zon_sub.
+      - apply zon_mul; [apply zon_mul; [apply zon_two|apply zon_mu]|exact Hz].
+      - apply zon_mul; [apply zon_c2|apply (zd_zon' wf wf' Hw)].
     Qed.
     (** kinetic energy (u^2)/2 = cos^2 w^2 / 2 and its mu-derivative *)
-    Lemma zonal_kin :
-      zd (kin P mu (vel_u P dlon dmu a psi chi) (vel_v P dlon dmu a psi chi))
-         (fun p => - (mu p * wf p * wf p) + c2 p * wf p * wf' p).
+    Lemma zonal_kin_val : kin mu (vel_u dlon dmu a psi chi) (vel_v dlon dmu a psi chi) = itwo * (c2 * (wf * wf)).
     Proof.
-      apply (zd_ext (fun p => (1 / two) * (c2 p * (wf p * wf p)))
-                    _ (fun p => (1 / two) * ((- (two * mu p)) * (wf p * wf p) + c2 p * (wf' p * wf p + wf p * wf' p)))).
-      - intros q. unfold kin. rewrite zonal_vel_u, zonal_vel_v.
-        transitivity ((s2 q * c2 q) * (c2 q * wf q * wf q) / two); [|field; exact two_nz].
-        rewrite s2c2. field. exact two_nz.
-      - intros q. cbv beta. unfold two. field. exact two_nz.
-      - apply zd_scal. apply zd_mul; [apply zd_c2|]. now apply zd_mul.
+      unfold kin. rewrite zonal_vel_u, zonal_vel_v, div_def.
+      transitivity ((s2 * c2) * (itwo * (c2 * (wf * wf)))); [ring|]. rewrite s2c2. ring.
+    Qed.
+    Lemma zonal_kin :
+      zd (kin mu (vel_u dlon dmu a psi chi) (vel_v dlon dmu a psi chi)) (- (mu * wf * wf) + c2 * wf * wf').
+    Proof.
+      rewrite zonal_kin_val.
+      apply (zd_eq _ (itwo * ((- (two * mu)) * (wf * wf) + c2 * (wf' * wf + wf * wf')))).
+      - transitivity (itwo * ((- (mu * wf * wf) + c2 * wf * wf') + (- (mu * wf * wf) + c2 * wf * wf')));
+          [unfold two; ring|apply half_double].
+      - apply zd_scal; [apply cst_itwo|]. apply zd_mul; [apply zd_c2|]. now apply zd_mul.
     Qed.
   End ZonalFlow.
 
   (** ** layered shallow water: geostrophically balanced zonal jets are steady *)
   Section SWZonal.
     Variable Kl : nat.
-    Variable Rm : nat -> nat -> F.
-    Variable ref : nat -> F.
-    Variable Omega : F.
-    Variable oro : fld.
-    Variable st : @SWState F P.
-    Variables wf wf' pr' : nat -> fld.
-    Hypothesis Hchi : forall i p, w_chi P st i p = 0.
+    Variable Rm : nat -> nat -> A.
+    Variable ref : nat -> A.
+    Variable Omega : A.
+    Variable oro : A.
+    Variable st : @SWState A.
+    Variables wf wf' pr' : nat -> A.
+    Hypothesis HOm : zon Omega.
+    Hypothesis Href : forall i, zon (ref i).
+    Hypothesis Hchi : forall i, w_chi st i = 0.
     Hypothesis Hw : forall i, zd (wf i) (wf' i).
-    Hypothesis Hpsi : forall i, zd (w_psi P st i) (fun p => - (a * wf i p)).
-    Hypothesis Hpot : forall i, zon (w_pot P st i).
+    Hypothesis Hpsi : forall i, zd (w_psi st i) (- (a * wf i)).
+    Hypothesis Hpot : forall i, zon (w_pot st i).
     (** the pressure sum_j R_ij Phi_j + Phi_s of layer i is zonal with mu-derivative pr' i ... *)
-    Hypothesis Hpr : forall i, zd (wpress P Kl Rm oro st i) (pr' i).
+    Hypothesis Hpr : forall i, zd (wpress Kl Rm oro st i) (pr' i).
     (** ... and in geostrophic (gradient-wind) balance with the jet:
         d(pressure)/dmu = - mu w (w + 2 a Omega),  i.e.  (1/a) dPhi/dlat = -(u^2 tan(lat)/a + f u) *)
-    Hypothesis Hbal : forall i p, pr' i p = - (mu p * wf i p * (wf i p + two * a * Omega)).
+    Hypothesis Hbal : forall i, pr' i = - (mu * wf i * (wf i + two * a * Omega)).
 
-    Lemma sw_abs_zon i : zon (wabs P dlon dmu mu a Omega st i).
+    Lemma sw_abs_val i : wabs dlon dmu mu a Omega st i = zvort (wf i) (wf' i) + two * Omega * mu.
+    Proof. unfold wabs, wzeta. now rewrite (zonal_vorticity _ _ _ (Hw i) (Hpsi i)). Qed.
+    Lemma sw_abs_zon i : zon (wabs dlon dmu mu a Omega st i).
     Proof.
-      apply (zon_ext (fun p => zvort (wf i) (wf' i) p + two * Omega * mu p)).
-      - intros q. unfold wabs, wzeta. now rewrite (zonal_vorticity _ _ _ (Hw i) (Hpsi i)).
-      - apply zon_add; [apply (zon_zvort _ _ (Hw i))|]. apply zon_mul; [apply zon_const|apply zon_mu].
+      rewrite sw_abs_val. apply zon_add; [apply (zon_zvort _ _ (Hw i))|].
+      apply zon_mul; [apply zon_mul; [apply zon_two|exact HOm]|apply zon_mu].
     Qed.
+    Lemma sw_U i : wU dlon dmu a st i = c2 * wf i.
+    Proof. unfold wU. apply (zonal_vel_u _ _ _ (Hchi i) (Hpsi i)). Qed.
+    Lemma sw_V i : wV dlon dmu a st i = 0.
+    Proof. unfold wV. apply (zonal_vel_v _ _ _ (Hchi i) (Hpsi i)). Qed.
+    Lemma sw_U_zon i : zon (wU dlon dmu a st i).
+    Proof. rewrite sw_U. apply zon_mul; [apply zon_c2|apply (Hw i)]. Qed.
 
-    Theorem sw_zonal_vorticity_steady i p : sw_vort_tend P dlon dmu mu a Omega st i p = 0.
+    Theorem sw_zonal_vorticity_steady i : sw_vort_tend dlon dmu mu a Omega st i = 0.
     Proof.
       unfold sw_vort_tend. rewrite sdiv_zonal; [ring| |].
-      - unfold wflux_u. apply zon_mul; [|apply sw_abs_zon].
-        apply (zon_ext (fun q => c2 q * wf i q)).
-        + intros q. unfold wU. now rewrite (zonal_vel_u _ _ _ (Hchi i) (Hpsi i)).
-        + apply zon_mul; [apply zon_c2|apply (Hw i)].
-      - intros q. unfold wflux_v, wV. rewrite (zonal_vel_v _ _ _ (Hchi i) (Hpsi i)). ring.
+      - unfold wflux_u. apply zon_mul; [apply sw_U_zon|apply sw_abs_zon].
+      - unfold wflux_v. rewrite sw_V. ring.
     Qed.
 
-    Theorem sw_zonal_potential_steady i p : sw_pot_tend P dlon dmu mu a ref st i p = 0.
+    Theorem sw_zonal_potential_steady i : sw_pot_tend dlon dmu mu a ref st i = 0.
     Proof.
       unfold sw_pot_tend. rewrite sdiv_zonal; [ring| |].
-      - apply zon_mul.
-        + apply (zon_ext (fun q => c2 q * wf i q)).
-          * intros q. unfold wU. now rewrite (zonal_vel_u _ _ _ (Hchi i) (Hpsi i)).
-          * apply zon_mul; [apply zon_c2|apply (Hw i)].
-        + apply zon_add; [apply zon_const|apply Hpot].
-      - intros q. unfold wV. rewrite (zonal_vel_v _ _ _ (Hchi i) (Hpsi i)). ring.
+      - apply zon_mul; [apply sw_U_zon|]. apply zon_add; [apply Href|apply Hpot].
+      - rewrite sw_V. ring.
     Qed.
 
-    Theorem sw_zonal_divergence_steady i p : sw_div_tend P dlon dmu mu a Kl Rm Omega oro st i p = 0.
+    Theorem sw_zonal_divergence_steady i : sw_div_tend dlon dmu mu a Kl Rm Omega oro st i = 0.
     Proof.
       unfold sw_div_tend.
-      rewrite scurl_zonal by (intros q; unfold wflux_v, wV; rewrite (zonal_vel_v _ _ _ (Hchi i) (Hpsi i)); ring).
+      rewrite scurl_zonal by (unfold wflux_v; rewrite sw_V; ring).
       pose proof (zd_add _ _ _ _ (Hpr i) (zonal_kin _ _ _ _ (Hchi i) (Hw i) (Hpsi i))) as HE.
-      unfold wU, wV. rewrite (slap_zd _ _ p HE).
-      (* the balance, pointwise *)
-      rewrite (D_ext dmu dmu_lin (wflux_u P dlon dmu mu a Omega st i)
-                 (fun q => (- (1 / a)) * (c2 q * (pr' i q + (- (mu q * wf i q * wf i q) + c2 q * wf i q * wf' i q)))) p).
-      2:{ intros q. unfold wflux_u, wabs, wzeta, wU.
-          rewrite (zonal_vel_u _ _ _ (Hchi i) (Hpsi i)), (zonal_vorticity _ _ _ (Hw i) (Hpsi i)), Hbal.
-          unfold zvort, two. cbv beta. field. exact a_nz. }
-      rewrite (D_scal dmu dmu_lin). field. exact a_nz.
+      unfold wU, wV. rewrite (slap_zd _ _ HE).
+      (* the balance *)
+      assert (B : wflux_u dlon dmu mu a Omega st i
+                  = (- ia) * (c2 * (pr' i + (- (mu * wf i * wf i) + c2 * wf i * wf' i)))).
+      { unfold wflux_u. rewrite sw_U, sw_abs_val, Hbal. unfold zvort.
+        transitivity (c2 * wf i * ((two * mu * wf i - c2 * wf' i) * ia) + (ia * a) * (c2 * wf i * (two * Omega * mu)));
+          [rewrite inv_a; ring|unfold two; ring]. }
+      rewrite B, (D_scal dmu dmu_leib) by (rewrite (D_opp dmu dmu_add), dmu_ia; ring). ring.
     Qed.
   End SWZonal.
 
   (** ** primitive equations: zonal flow in gradient-wind balance is steady *)
   Section PEZonal.
-    Variable c : @PEcfg F.
-    Variables Omega grav Rv Cpv : F.
-    Variable oro : fld.
-    Variable st : @PEState F P.
-    Variables wf wf' ph' : nat -> fld.
-    Variable lam' : fld.
-    Hypothesis Hchi : forall k p, st_chi P st k p = 0.
+    Variable c : @PEcfg A.
+    Variables Omega grav Rv Cpv : A.
+    Variable oro : A.
+    Variable st : @PEState A.
+    Variables wf wf' ph' : nat -> A.
+    Variable lam' : A.
+    Hypothesis HOm : zon Omega.
+    Hypothesis HR : zon (cR c).
+    Hypothesis Heps : zon (Rv / cR c).
+    Hypothesis Hchi : forall k, st_chi st k = 0.
     Hypothesis Hw : forall k, zd (wf k) (wf' k).
-    Hypothesis Hpsi : forall k, zd (st_psi P st k) (fun p => - (a * wf k p)).
-    Hypothesis HT : forall k, zon (st_T P st k).
-    Hypothesis Hq : forall k, zon (st_q P st k).
-    Hypothesis Hlnps : zd (st_lnps P st) lam'.
+    Hypothesis Hpsi : forall k, zd (st_psi st k) (- (a * wf k)).
+    Hypothesis HT : forall k, zon (st_T st k).
+    Hypothesis Hq : forall k, zon (st_q st k).
+    Hypothesis Hlnps : zd (st_lnps st) lam'.
     (** the hydrostatic geopotential of level k is zonal with mu-derivative ph' k ... *)
-    Hypothesis Hphi : forall k, zd (phi P c grav Rv oro st k) (ph' k).
+    Hypothesis Hphi : forall k, zd (phi c grav Rv oro st k) (ph' k).
     (** ... and the flow is in gradient-wind balance on every level:
         dPhi/dmu + R Tv d(ln ps)/dmu = - mu w (w + 2 a Omega) *)
-    Hypothesis Hbal : forall k p,
-        ph' k p + cR c * Tv P c Rv st k p * lam' p = - (mu p * wf k p * (wf k p + two * a * Omega)).
+    Hypothesis Hbal : forall k,
+        ph' k + cR c * Tv c Rv st k * lam' = - (mu * wf k * (wf k + two * a * Omega)).
 
-    Lemma pe_gx0 p : gx P dlon a st p = 0.
-    Proof. unfold gx, grad_x. destruct Hlnps as [Hz _]. rewrite Hz, fdiv_def. ring. Qed.
-    Lemma pe_gy p : gy P dmu a st p = c2 p * lam' p / a.
-    Proof. unfold gy, grad_y. destruct Hlnps as [_ Hd]. now rewrite Hd. Qed.
-    Lemma pe_U k p : U P dlon dmu a st k p = c2 p * wf k p.
+    Lemma pe_gx0 : gx dlon a st = 0.
+    Proof. unfold gx, grad_x. destruct Hlnps as [Hz _]. unfold zon in Hz. rewrite Hz, div_def. ring. Qed.
+    Lemma pe_gy : gy dmu a st = c2 * lam' * ia.
+    Proof. unfold gy, grad_y. destruct Hlnps as [_ Hd]. now rewrite Hd, div_def. Qed.
+    Lemma pe_U k : U dlon dmu a st k = c2 * wf k.
     Proof. unfold U. apply (zonal_vel_u _ _ _ (Hchi k) (Hpsi k)). Qed.
-    Lemma pe_V k p : V P dlon dmu a st k p = 0.
+    Lemma pe_V k : V dlon dmu a st k = 0.
     Proof. unfold V. apply (zonal_vel_v _ _ _ (Hchi k) (Hpsi k)). Qed.
-    Lemma pe_gfull0 k p : gfull P dlon dmu mu a st k p = 0.
-    Proof.
-      unfold gfull, delta, ugrad. rewrite (zonal_divergence _ (Hchi k)), pe_gx0, pe_V. ring.
-    Qed.
-    Lemma pe_sdot0 p r : sdot P dlon dmu mu a c st p r = 0.
+    Lemma pe_gfull0 k : gfull dlon dmu mu a st k = 0.
+    Proof. unfold gfull, delta, ugrad. rewrite (zonal_divergence _ (Hchi k)), pe_gx0, pe_V. ring. Qed.
+    Lemma pe_sdot0 r : sdot dlon dmu mu a c st r = 0.
     Proof.
       unfold sdot, spec_sigma_dot, spec_cum.
-      rewrite !sumn_zero by (intros; rewrite pe_gfull0; ring). ring.
+      rewrite !sumn_zero_ring by (intros; rewrite pe_gfull0; ring). ring.
     Qed.
-    Lemma spec_vadv_zero_w (w x : nat -> F) n : (forall k, w k = 0) -> spec_vadv c w x n = 0.
+    Lemma spec_vadv_zero_w (w x : nat -> A) n : (forall k, w k = 0) -> spec_vadv c w x n = 0.
     Proof.
-      intros H. unfold spec_vadv. rewrite !H, fdiv_def.
+      intros H. unfold spec_vadv. rewrite !H, div_def.
       destruct (Nat.ltb (S n) (cK c)), (Nat.eqb n 0); ring.
     Qed.
 
-    Theorem pe_zonal_lnps_steady p : spec_lnps_tend P dlon dmu mu a c st p = 0.
-    Proof. unfold spec_lnps_tend. rewrite sumn_zero; [ring|]. intros k _. rewrite pe_gfull0. ring. Qed.
+    Theorem pe_zonal_lnps_steady : spec_lnps_tend dlon dmu mu a c st = 0.
+    Proof. unfold spec_lnps_tend. rewrite sumn_zero_ring; [ring|]. intros k _. rewrite pe_gfull0. ring. Qed.
 
-    Theorem pe_zonal_temperature_steady k p : spec_temp_tend P dlon dmu mu a c Rv Cpv st k p = 0.
+    Theorem pe_zonal_temperature_steady k : spec_temp_tend dlon dmu mu a c Rv Cpv st k = 0.
     Proof.
       unfold spec_temp_tend.
       rewrite spec_vadv_zero_w by (intros; apply pe_sdot0).
-      rewrite (HT k p), pe_V.
-      unfold spec_omega_p, spec_cum. rewrite !sumn_zero by (intros; rewrite pe_gfull0; ring).
-      unfold ugrad. rewrite pe_gx0, pe_V, !fdiv_def. destruct (Nat.eqb k 0); ring.
+      rewrite (HT k), pe_V.
+      unfold spec_omega_p, spec_cum. rewrite !sumn_zero_ring by (intros; rewrite pe_gfull0; ring).
+      unfold ugrad. rewrite pe_gx0, pe_V, !div_def. destruct (Nat.eqb k 0); ring.
     Qed.
 
-    Theorem pe_zonal_tracer_steady (X : nat -> fld) k p :
-      zon (X k) -> spec_tracer_tend P dlon dmu mu a c st X k p = 0.
+    Theorem pe_zonal_tracer_steady (X : nat -> A) k :
+      zon (X k) -> spec_tracer_tend dlon dmu mu a c st X k = 0.
     Proof.
       intros HX. unfold spec_tracer_tend.
       rewrite spec_vadv_zero_w by (intros; apply pe_sdot0).
-      rewrite (HX p), pe_V, !fdiv_def. ring.
+      rewrite HX, pe_V, !div_def. ring.
     Qed.
 
-    Lemma pe_mom_u0 k p : mom_u P dlon dmu mu a c Omega Rv st k p = 0.
+    Lemma pe_mom_u0 k : mom_u dlon dmu mu a c Omega Rv st k = 0.
     Proof.
       unfold mom_u. rewrite spec_vadv_zero_w by (intros; apply pe_sdot0). rewrite pe_V, pe_gx0. ring.
     Qed.
-    Lemma pe_Tv_zon k : zon (Tv P c Rv st k).
+    Lemma pe_Tv_zon k : zon (Tv c Rv st k).
     Proof.
-      unfold Tv. apply zon_mul; [apply HT|]. apply zon_add; [apply zon_const|].
-      apply zon_mul; [apply zon_const|apply Hq].
+      unfold Tv. apply zon_mul; [apply HT|]. apply zon_add; [apply zon_cst, cst_1|].
+      apply zon_mul; [|apply Hq]. apply zon_sub; [exact Heps|apply zon_cst, cst_1].
     Qed.
-    Lemma pe_mom_v k p :
-      mom_v P dlon dmu mu a c Omega Rv st k p
-      = c2 p * (wf k p * (zvort (wf k) (wf' k) p + two * Omega * mu p) + cR c * Tv P c Rv st k p * lam' p / a).
+    Lemma pe_mom_v k :
+      mom_v dlon dmu mu a c Omega Rv st k
+      = c2 * (wf k * (zvort (wf k) (wf' k) + two * Omega * mu) + cR c * Tv c Rv st k * lam' * ia).
     Proof.
       unfold mom_v. rewrite spec_vadv_zero_w by (intros; apply pe_sdot0).
-      unfold zeta, fcor. rewrite pe_U, pe_gy, (zonal_vorticity _ _ _ (Hw k) (Hpsi k)), !fdiv_def. ring.
+      unfold zeta, fcor. rewrite pe_U, pe_gy, (zonal_vorticity _ _ _ (Hw k) (Hpsi k)). ring.
     Qed.
 
-    Theorem pe_zonal_vorticity_steady k p : spec_vort_tend P dlon dmu mu a c Omega Rv st k p = 0.
+    Theorem pe_zonal_vorticity_steady k : spec_vort_tend dlon dmu mu a c Omega Rv st k = 0.
     Proof.
-      unfold spec_vort_tend, scurl.
-      rewrite (D_zero_fn dmu dmu_lin dmu_leib _ p (pe_mom_u0 k)).
-      rewrite (D_ext dlon dlon_lin _ _ p (pe_mom_v k)).
-      assert (Z : zon (fun p => c2 p * (wf k p * (zvort (wf k) (wf' k) p + two * Omega * mu p)
-                                        + cR c * Tv P c Rv st k p * lam' p / a))).
+      unfold spec_vort_tend, scurl. rewrite pe_mom_u0, (D_zero dmu dmu_add), pe_mom_v.
+      assert (Z : zon (c2 * (wf k * (zvort (wf k) (wf' k) + two * Omega * mu) + cR c * Tv c Rv st k * lam' * ia))).
       { apply zon_mul; [apply zon_c2|]. apply zon_add.
         - apply zon_mul; [apply (Hw k)|]. apply zon_add; [apply (zon_zvort _ _ (Hw k))|].
-          apply zon_mul; [apply zon_const|apply zon_mu].
-        - apply zon_divc. apply zon_mul; [apply zon_mul; [apply zon_const|apply pe_Tv_zon]|].
-          (* lam' is zonal: it is the mu-derivative of a zonal field *)
-          intros q. destruct Hlnps as [Hz Hd]. pose proof (zon_dmu _ Hz q) as E.
-          rewrite (D_ext dlon dlon_lin (dmu (st_lnps P st)) (fun r => c2 r * lam' r) q Hd) in E.
-          rewrite dlon_leib, dlon_c2 in E.
-          transitivity ((s2 q * c2 q) * dlon lam' q); [rewrite s2c2; ring|].
-          transitivity (s2 q * (0 * lam' q + c2 q * dlon lam' q)); [ring|]. rewrite E. ring. }
-      rewrite (Z p), !fdiv_def. ring.
+          apply zon_mul; [apply zon_mul; [apply zon_two|exact HOm]|apply zon_mu].
+        - apply zon_mul; [|apply zon_ia]. apply zon_mul; [apply zon_mul; [exact HR|apply pe_Tv_zon]|].
+          apply (zd_zon' _ _ Hlnps). }
+      unfold zon in Z. rewrite Z, !div_def. ring.
     Qed.
 
-    Theorem pe_zonal_divergence_steady k p : spec_div_tend P dlon dmu mu a c Omega grav Rv oro st k p = 0.
+    Theorem pe_zonal_divergence_steady k : spec_div_tend dlon dmu mu a c Omega grav Rv oro st k = 0.
     Proof.
       unfold spec_div_tend.
-      rewrite sdiv_zonal_v by (intros q; apply (D_zero_fn dlon dlon_lin dlon_leib), pe_mom_u0).
+      rewrite sdiv_zonal_v by (unfold zon; rewrite pe_mom_u0; apply (D_zero dlon dlon_add)).
       pose proof (zd_add _ _ _ _ (zonal_kin _ _ _ _ (Hchi k) (Hw k) (Hpsi k)) (Hphi k)) as HE.
-      rewrite (slap_ext (energy P dlon dmu mu a c grav Rv oro st k)
-                 (fun q => kin P mu (vel_u P dlon dmu a (st_psi P st k) (st_chi P st k))
-                               (vel_v P dlon dmu a (st_psi P st k) (st_chi P st k)) q
-                           + phi P c grav Rv oro st k q) p) by reflexivity.
-      rewrite (slap_zd _ _ p HE).
-      rewrite (D_ext dmu dmu_lin (mom_v P dlon dmu mu a c Omega Rv st k)
-                 (fun q => (- (1 / a)) * (c2 q * ((- (mu q * wf k q * wf k q) + c2 q * wf k q * wf' k q) + ph' k q))) p).
-      2:{ intros q. rewrite pe_mom_v. unfold zvort.
-          assert (E : ph' k q = - (mu q * wf k q * (wf k q + two * a * Omega)) - cR c * Tv P c Rv st k q * lam' q)
-            by (rewrite <- (Hbal k q); ring).
-          rewrite E. unfold two. cbv beta. field. exact a_nz. }
-      rewrite (D_scal dmu dmu_lin). field. exact a_nz.
+      unfold energy, U, V. rewrite (slap_zd _ _ HE).
+      assert (B : mom_v dlon dmu mu a c Omega Rv st k
+                  = (- ia) * (c2 * ((- (mu * wf k * wf k) + c2 * wf k * wf' k) + ph' k))).
+      { rewrite pe_mom_v. unfold zvort.
+        assert (E : ph' k = - (mu * wf k * (wf k + two * a * Omega)) - cR c * Tv c Rv st k * lam')
+          by (rewrite <- (Hbal k); ring).
+        rewrite E.
+        transitivity (c2 * (wf k * ((two * mu * wf k - c2 * wf' k) * ia) + (ia * a) * (wf k * (two * Omega * mu))
+                            + cR c * Tv c Rv st k * lam' * ia));
+          [rewrite inv_a; ring|unfold two; ring]. }
+      rewrite B, (D_scal dmu dmu_leib) by (rewrite (D_opp dmu dmu_add), dmu_ia; ring). ring.
     Qed.
   End PEZonal.
 
   (** ** concrete balanced families *)
-  Lemma sumn_pull n (cf g : nat -> F) (m : F) :
-    sumn n (fun j => cf j * (g j * m)) = m * sumn n (fun j => cf j * g j).
-  Proof. rewrite <- sumn_scal_l. apply sumn_ext. intros; ring. Qed.
+  Lemma zd_mumu : zd (mu * mu) (two * mu).
+  Proof. apply (zd_eq _ (1 * mu + mu * 1)); [unfold two; ring|]. apply zd_mul; apply zd_mu. Qed.
 
   (** arbitrary polynomial jets u_i = cos(lat) * w_i(mu), polynomial potentials and zonal orography,
-      any number of layers, any density matrix, any rotation rate and radius *)
-  Theorem sw_polynomial_jet_steady (Kl : nat) (Rm : nat -> nat -> F) (ref : nat -> F) (Omega : F)
-          (ws Ps Phs : nat -> list F) (Os : list F) :
+      any number of layers, any (constant) density matrix, any rotation rate and radius *)
+  Theorem sw_polynomial_jet_steady (Kl : nat) (Rm : nat -> nat -> A) (ref : nat -> A) (Omega : A)
+          (ws Ps Phs : nat -> list A) (Os : list A) :
+    zon Omega -> (forall i, zon (ref i)) -> (forall i j, cst (Rm i j)) ->
+    (forall i, Forall cst (ws i)) -> (forall i, Forall cst (Ps i)) -> (forall i, Forall cst (Phs i)) -> Forall cst Os ->
     (forall i x, pdiff (Ps i) x = - (a * peval (ws i) x)) ->
     (forall i x, sumn Kl (fun j => Rm i j * pdiff (Phs j) x) + pdiff Os x
                  = - (x * peval (ws i) x * (peval (ws i) x + two * a * Omega))) ->
-    let st := mkSWS P (fun i p => peval (Ps i) (mu p)) (fun _ _ => 0) (fun i p => peval (Phs i) (mu p)) in
-    let oro := fun p => peval Os (mu p) in
-    forall i p,
-      sw_vort_tend P dlon dmu mu a Omega st i p = 0 /\
-      sw_div_tend P dlon dmu mu a Kl Rm Omega oro st i p = 0 /\
-      sw_pot_tend P dlon dmu mu a ref st i p = 0.
+    let st := mkSWS (fun i => peval (Ps i) mu) (fun _ => 0) (fun i => peval (Phs i) mu) in
+    let oro := peval Os mu in
+    forall i,
+      sw_vort_tend dlon dmu mu a Omega st i = 0 /\
+      sw_div_tend dlon dmu mu a Kl Rm Omega oro st i = 0 /\
+      sw_pot_tend dlon dmu mu a ref st i = 0.
   Proof.
-    intros HP HB st oro i p.
-    set (wf := fun i p => peval (ws i) (mu p)). set (wf' := fun i p => pdiff (ws i) (mu p)).
-    set (pr' := fun i p => sumn Kl (fun j => Rm i j * pdiff (Phs j) (mu p)) + pdiff Os (mu p)).
-    assert (Hchi : forall i p, w_chi P st i p = 0) by reflexivity.
-    assert (Hw : forall i, zd (wf i) (wf' i)) by (intros; apply zonal_polynomial_derivative).
-    assert (Hpsi : forall i, zd (w_psi P st i) (fun p => - (a * wf i p))).
-    { intros k. apply (zd_ext _ _ _ _ (fun _ => eq_refl) (fun q => HP k (mu q))).
-      apply zonal_polynomial_derivative. }
-    assert (Hpot : forall i, zon (w_pot P st i)) by (intros k; apply (zonal_polynomial_derivative (Phs k))).
-    assert (Hpr : forall i, zd (wpress P Kl Rm oro st i) (pr' i)).
-    { intros k. unfold wpress, pr'. apply zd_add; [|apply zonal_polynomial_derivative].
-      apply zd_sumn. intros j. apply zonal_polynomial_derivative. }
-    assert (Hbal : forall i p, pr' i p = - (mu p * wf i p * (wf i p + two * a * Omega))).
-    { intros k q. apply HB. }
+    intros HOm Href HRm Hws HPs HPhs HOs HP HB st oro i.
+    set (wf := fun i => peval (ws i) mu). set (wf' := fun i => pdiff (ws i) mu).
+    set (pr' := fun i => sumn Kl (fun j => Rm i j * pdiff (Phs j) mu) + pdiff Os mu).
+    assert (Hchi : forall i, w_chi st i = 0) by reflexivity.
+    assert (Hw : forall i, zd (wf i) (wf' i)) by (intros; apply zonal_polynomial_derivative, Hws).
+    assert (Hpsi : forall i, zd (w_psi st i) (- (a * wf i))).
+    { intros k. apply (zd_eq _ (pdiff (Ps k) mu)); [apply HP|]. apply zonal_polynomial_derivative, HPs. }
+    assert (Hpot : forall i, zon (w_pot st i)) by (intros k; apply (zonal_polynomial_derivative (Phs k)), HPhs).
+    assert (Hpr : forall i, zd (wpress Kl Rm oro st i) (pr' i)).
+    { intros k. unfold wpress, pr'. apply zd_add; [|apply zonal_polynomial_derivative, HOs].
+      apply zd_sumn; [apply HRm|]. intros j. apply zonal_polynomial_derivative, HPhs. }
+    assert (Hbal : forall i, pr' i = - (mu * wf i * (wf i + two * a * Omega))) by (intros k; apply HB).
     split; [|split].
-    - apply (sw_zonal_vorticity_steady Omega st wf wf' Hchi Hw Hpsi).
+    - apply (sw_zonal_vorticity_steady Omega st wf wf' HOm Hchi Hw Hpsi).
     - apply (sw_zonal_divergence_steady Kl Rm Omega oro st wf wf' pr' Hchi Hw Hpsi Hpr Hbal).
-    - apply (sw_zonal_potential_steady ref st wf wf' Hchi Hw Hpsi Hpot).
+    - apply (sw_zonal_potential_steady ref st wf wf' Href Hchi Hw Hpsi Hpot).
   Qed.
 
   (** one layer, solid-body rotation u = U0 cos(lat): the balanced height is
       Phi = c0 - (U0^2/2 + a Omega U0) sin^2(lat) *)
-  Theorem sw_solid_body_one_layer (ref : nat -> F) (Omega U0 c0 : F) :
-    let st := mkSWS P (fun _ p => - (a * U0) * mu p) (fun _ _ => 0)
-                    (fun _ p => c0 - (U0 * U0 / two + a * Omega * U0) * (mu p * mu p)) in
-    forall p,
-      sw_vort_tend P dlon dmu mu a Omega st 0%nat p = 0 /\
-      sw_div_tend P dlon dmu mu a 1 (fun _ _ => 1) Omega (fun _ => 0) st 0%nat p = 0 /\
-      sw_pot_tend P dlon dmu mu a ref st 0%nat p = 0.
+  Theorem sw_solid_body_one_layer (ref : nat -> A) (Omega U0 c0 : A) :
+    cst Omega -> cst U0 -> cst c0 -> (forall i, zon (ref i)) ->
+    let st := mkSWS (fun _ => - (a * U0) * mu) (fun _ => 0)
+                    (fun _ => c0 - (U0 * U0 / two + a * Omega * U0) * (mu * mu)) in
+    sw_vort_tend dlon dmu mu a Omega st 0%nat = 0 /\
+    sw_div_tend dlon dmu mu a 1 (fun _ _ => 1) Omega 0 st 0%nat = 0 /\
+    sw_pot_tend dlon dmu mu a ref st 0%nat = 0.
   Proof.
-    intros st p.
-    set (wf := fun (_ : nat) (_ : P) => U0). set (wf' := fun (_ : nat) (_ : P) => 0).
-    set (pr' := fun (_ : nat) (q : P) => - (mu q * U0 * (U0 + two * a * Omega))).
-    assert (Hchi : forall i p, w_chi P st i p = 0) by reflexivity.
-    assert (Hw : forall i, zd (wf i) (wf' i)) by (intros j; exact (zd_const U0)).
-    assert (Hpsi : forall i, zd (w_psi P st i) (fun p => - (a * wf i p))).
-    { intros k. apply (zd_ext (fun q => (- (a * U0)) * mu q) _ (fun q => (- (a * U0)) * 1)).
-      - reflexivity. - intros; unfold wf; ring. - apply zd_scal, zd_mu. }
-    assert (Hpot : forall i, zon (w_pot P st i)).
-    { intros k. apply zon_sub; [apply zon_const|]. apply zon_mul; [apply zon_const|]. apply zon_mul; apply zon_mu. }
-    assert (Hpr : forall i, zd (wpress P 1 (fun _ _ => 1) (fun _ => 0) st i) (pr' i)).
+    intros HOm HU Hc Href st.
+    set (wf := fun (_ : nat) => U0). set (wf' := fun (_ : nat) => (@f0 A o)).
+    set (pr' := fun (_ : nat) => - (mu * U0 * (U0 + two * a * Omega))).
+    set (Kc := U0 * U0 / two + a * Omega * U0).
+    assert (HK : cst Kc).
+    { unfold Kc. apply cst_add; [apply cst_half, cst_mul; exact HU|]. apply cst_mul; [apply cst_mul; [apply cst_a|exact HOm]|exact HU]. }
+    assert (Hchi : forall i, w_chi st i = 0) by reflexivity.
+    assert (Hw : forall i, zd (wf i) (wf' i)) by (intros j; exact (zd_cst U0 HU)).
+    assert (Hpsi : forall i, zd (w_psi st i) (- (a * wf i))).
+    { intros k. apply (zd_eq _ ((- (a * U0)) * 1)); [unfold wf; ring|].
+      apply zd_scal; [apply cst_opp, cst_mul; [apply cst_a|exact HU]|apply zd_mu]. }
+    assert (Hpot : forall i, zon (w_pot st i)).
+    { intros k. apply zon_sub; [apply zon_cst, Hc|]. apply zon_mul; [apply zon_cst, HK|apply zd_mumu]. }
+    assert (Hpr : forall i, zd (wpress 1 (fun _ _ => 1) 0 st i) (pr' i)).
     { intros k.
-      apply (zd_ext (fun q => c0 + (- (U0 * U0 / two + a * Omega * U0)) * (mu q * mu q)) _
-                    (fun q => 0 + (- (U0 * U0 / two + a * Omega * U0)) * (1 * mu q + mu q * 1))).
-      - intros q. unfold wpress. cbn [sumn w_pot st]. ring.
-      - intros q. unfold pr', two. field. exact two_nz.
-      - apply zd_add; [apply zd_const|]. apply zd_scal. apply zd_mul; apply zd_mu. }
-    assert (Hbal : forall i p, pr' i p = - (mu p * wf i p * (wf i p + two * a * Omega))) by reflexivity.
+      assert (Z : zd (c0 + (- Kc) * (mu * mu)) (0 + (- Kc) * (two * mu))).
+      { apply zd_add; [now apply zd_cst|]. apply zd_scal; [now apply cst_opp|apply zd_mumu]. }
+      assert (E1 : wpress 1 (fun _ _ => 1) 0 st k = c0 + (- Kc) * (mu * mu)).
+      { unfold wpress. cbn [sumn w_pot st]. fold Kc. ring. }
+      rewrite E1. apply (zd_eq _ (0 + - Kc * (two * mu))); [|exact Z].
+      unfold pr', Kc. rewrite div_def.
+      transitivity (- (U0 * U0 * mu) * (itwo * two) - a * Omega * U0 * (two * mu)); [ring|rewrite inv_two; ring]. }
+    assert (Hbal : forall i, pr' i = - (mu * wf i * (wf i + two * a * Omega))) by reflexivity.
     split; [|split].
-    - apply (sw_zonal_vorticity_steady Omega st wf wf' Hchi Hw Hpsi).
-    - apply (sw_zonal_divergence_steady 1 (fun _ _ => 1) Omega (fun _ => 0) st wf wf' pr' Hchi Hw Hpsi Hpr Hbal).
-    - apply (sw_zonal_potential_steady ref st wf wf' Hchi Hw Hpsi Hpot).
+    - apply (sw_zonal_vorticity_steady Omega st wf wf' (zon_cst _ HOm) Hchi Hw Hpsi).
+    - apply (sw_zonal_divergence_steady 1 (fun _ _ => 1) Omega 0 st wf wf' pr' Hchi Hw Hpsi Hpr Hbal).
+    - apply (sw_zonal_potential_steady ref st wf wf' Href Hchi Hw Hpsi Hpot).
   Qed.
 
   (** shallow_water_states.one_layer: vorticity = -E(w), Phi + u^2/2 = -lap^{-1} E(w (vorticity + sin lat)),
       with E(X) = sec(lat) d/dlat(cos^2 X) applied without the 1/radius factors and f = sin(lat):
       balanced exactly when radius = 1 and 2 Omega = 1 *)
-  Definition Eop (X : fld) : fld := fun p => s2 p * dmu (fun q => c2 q * X q) p.
-  Theorem one_layer_formulas_balanced (Omega k0 : F) (psi wf wf' pe : fld) :
-    a = 1 -> two * Omega = 1 ->
-    zd wf wf' -> zd psi (fun p => - (a * wf p)) ->
-    let vort := fun p => - Eop wf p in
-    (forall p, slap P dlon dmu mu a pe p = - Eop (fun q => wf q * (vort q + mu q)) p) ->
-    let st := mkSWS P (fun _ => psi) (fun _ _ => 0) (fun _ p => pe p - c2 p * wf p * wf p / two + k0) in
-    forall p,
-      wzeta P dlon dmu mu a st 0%nat p = vort p /\
-      sw_div_tend P dlon dmu mu a 1 (fun _ _ => 1) Omega (fun _ => 0) st 0%nat p = 0.
+  Definition Eop (X : A) : A := s2 * dmu (c2 * X).
+  Theorem one_layer_formulas_balanced (Omega k0 psi wf wf' pe : A) :
+    a = 1 -> two * Omega = 1 -> cst k0 ->
+    zd wf wf' -> zd psi (- (a * wf)) ->
+    let vort := - Eop wf in
+    slap dlon dmu mu a pe = - Eop (wf * (vort + mu)) ->
+    let st := mkSWS (fun _ => psi) (fun _ => 0) (fun _ => pe - c2 * wf * wf / two + k0) in
+    wzeta dlon dmu mu a st 0%nat = vort /\
+    sw_div_tend dlon dmu mu a 1 (fun _ _ => 1) Omega 0 st 0%nat = 0.
   Proof.
-    intros Ha HO Hw Hpsi vort Hpe st p.
-    assert (Hchi : forall q, w_chi P st 0%nat q = 0) by reflexivity.
-    assert (Hv : forall q, vort q = zvort wf wf' q).
-    { intros q. unfold vort, Eop, zvort. destruct Hw as [_ Hd]. rewrite dmu_leib, dmu_c2, Hd, Ha.
-      transitivity ((s2 q * c2 q) * (two * mu q * wf q - c2 q * wf' q)); [ring|]. rewrite s2c2. field.
-      intro E1. apply a_nz. rewrite Ha. exact E1. }
-    split.
-    - unfold wzeta. cbn [w_psi st]. rewrite (zonal_vorticity psi wf wf' Hw Hpsi). now rewrite Hv.
-    - unfold sw_div_tend.
-      rewrite scurl_zonal by (intros q; unfold wflux_v, wV; cbn [w_psi w_chi st]; rewrite (zonal_vel_v psi _ wf Hchi Hpsi); ring).
-      rewrite (slap_ext _ (fun q => pe q + k0) p).
-      2:{ intros q. unfold wpress, kin, wU, wV. cbn [sumn w_pot w_psi w_chi st].
-          rewrite (zonal_vel_u psi _ wf Hchi Hpsi), (zonal_vel_v psi _ wf Hchi Hpsi).
-          transitivity (pe q - c2 q * wf q * wf q / two + k0 + (s2 q * c2 q) * (c2 q * wf q * wf q) / two);
-            [field; exact two_nz|]. rewrite s2c2. field. exact two_nz. }
-      rewrite slap_add, laplacian_of_constant, Hpe.
-      rewrite (D_ext dmu dmu_lin (wflux_u P dlon dmu mu a Omega st 0%nat) (fun q => c2 q * (wf q * (vort q + mu q))) p).
-      2:{ intros q. unfold wflux_u, wabs, wzeta, wU. cbn [w_psi w_chi st].
-          rewrite (zonal_vel_u psi _ wf Hchi Hpsi), (zonal_vorticity psi wf wf' Hw Hpsi), Hv.
-          transitivity (c2 q * wf q * (zvort wf wf' q + (two * Omega) * mu q)); [ring|]. rewrite HO. ring. }
-      unfold Eop. rewrite Ha, fdiv_def. field. intro E1. apply a_nz. rewrite Ha. exact E1.
+    intros Ha HO Hk Hw Hpsi vort Hpe st.
+    assert (Hia : ia = 1) by (transitivity (ia * a); [rewrite Ha; ring|exact inv_a]).
+    assert (Hchi : w_chi st 0%nat = 0) by reflexivity.
+    assert (Hv : vort = zvort wf wf').
+    { unfold vort, Eop, zvort. destruct Hw as [_ Hd]. rewrite dmu_leib, dmu_c2, Hd, Hia.
+      transitivity ((s2 * c2) * (two * mu * wf - c2 * wf')); [ring|]. rewrite s2c2. ring. }
+    assert (Hz : wzeta dlon dmu mu a st 0%nat = vort).
+    { unfold wzeta. cbn [w_psi st]. now rewrite (zonal_vorticity psi wf wf' Hw Hpsi), Hv. }
+    split; [exact Hz|].
+    unfold sw_div_tend.
+    rewrite scurl_zonal by (unfold wflux_v, wV; cbn [w_psi w_chi st]; rewrite (zonal_vel_v psi _ wf eq_refl Hpsi); ring).
+    replace (wpress 1 (fun _ _ => 1) 0 st 0 + kin mu (wU dlon dmu a st 0) (wV dlon dmu a st 0)) with (pe + k0).
+    2:{ unfold wpress, wU, wV. cbn [sumn w_pot w_psi w_chi st].
+        rewrite (zonal_kin_val psi _ wf eq_refl Hpsi), div_def. ring. }
+    rewrite slap_add, (laplacian_of_constant k0 Hk), Hpe.
+    replace (wflux_u dlon dmu mu a Omega st 0) with (c2 * (wf * (vort + mu))).
+    2:{ unfold wflux_u, wabs. rewrite Hz. unfold wU. cbn [w_psi w_chi st].
+        rewrite (zonal_vel_u psi _ wf eq_refl Hpsi).
+        transitivity (c2 * wf * (vort + (two * Omega) * mu)); [rewrite HO; ring|ring]. }
+    unfold Eop. rewrite Hia. ring.
   Qed.
 
   (** shallow_water_states.multi_layer solves sum_j R_ij Phi_j = s_i: the divergence tendency of layer i
       depends on the potentials only through that sum *)
-  Theorem multi_layer_formulas_balanced (Kl : nat) (Rm : nat -> nat -> F) (Omega : F) (oro : fld)
-          (psi chi pot s : nat -> fld) i :
-    (forall p, sumn Kl (fun j => Rm i j * pot j p) = s i p) ->
-    forall p,
-      sw_div_tend P dlon dmu mu a Kl Rm Omega oro (mkSWS P psi chi pot) i p
-      = sw_div_tend P dlon dmu mu a 1 (fun _ _ => 1) Omega oro (mkSWS P (fun _ => psi i) (fun _ => chi i) (fun _ => s i)) 0%nat p.
+  Theorem multi_layer_formulas_balanced (Kl : nat) (Rm : nat -> nat -> A) (Omega oro : A)
+          (psi chi pot s : nat -> A) i :
+    sumn Kl (fun j => Rm i j * pot j) = s i ->
+    sw_div_tend dlon dmu mu a Kl Rm Omega oro (mkSWS psi chi pot) i
+    = sw_div_tend dlon dmu mu a 1 (fun _ _ => 1) Omega oro (mkSWS (fun _ => psi i) (fun _ => chi i) (fun _ => s i)) 0%nat.
   Proof.
-    intros H p. unfold sw_div_tend. f_equal.
-    apply slap_ext. intros q. unfold wpress. cbn [sumn w_pot]. rewrite H. unfold kin, wU, wV. cbn [w_psi w_chi]. ring.
+    intros H. unfold sw_div_tend, wpress, wflux_u, wflux_v, wabs, wzeta, wU, wV. cbn [sumn w_pot w_psi w_chi].
+    rewrite H. replace (0 + 1 * s i) with (s i) by ring. reflexivity.
   Qed.
 
   (** primitive equations: solid-body rotation u_k = U_k cos(lat) on every level,
       T_k = Tb_k + tau_k mu^2, uniform humidity q0, ln ps = cst + beta mu^2, orography gam mu^2 *)
-  Theorem solid_body_steady (c : @PEcfg F) (Omega grav Rv Cpv q0 cst beta gam : F) (Uk Tb tau : nat -> F) :
+  Theorem solid_body_steady (c : @PEcfg A) (Omega grav Rv Cpv q0 cst0 beta gam : A) (Uk Tb tau : nat -> A) :
+    cst Omega -> cst grav -> cst q0 -> cst cst0 -> cst beta -> cst gam ->
+    cst (cR c) -> cst (Rv / cR c) -> (forall i, cst (cls c i)) ->
+    (forall k, cst (Uk k)) -> (forall k, cst (Tb k)) -> (forall k, cst (tau k)) ->
     let mf := 1 + (Rv / cR c - 1) * q0 in
     (forall k, Uk k * (Uk k + two * a * Omega)
                + two * (grav * gam + mf * sumn (cK c) (fun j => geo_weights (cK c) (cR c) (cls c) k j * tau j))
                + two * (cR c * mf * Tb k * beta) = 0) ->
     (forall k, beta * tau k = 0) ->
-    let st := mkPES P (fun k p => - (a * Uk k) * mu p) (fun _ _ => 0)
-                    (fun k p => Tb k + tau k * (mu p * mu p)) (fun p => cst + beta * (mu p * mu p)) (fun _ _ => q0) in
-    let oro := fun p => gam * (mu p * mu p) in
-    forall k p,
-      spec_vort_tend P dlon dmu mu a c Omega Rv st k p = 0 /\
-      spec_div_tend P dlon dmu mu a c Omega grav Rv oro st k p = 0 /\
-      spec_temp_tend P dlon dmu mu a c Rv Cpv st k p = 0 /\
-      spec_lnps_tend P dlon dmu mu a c st p = 0 /\
-      spec_tracer_tend P dlon dmu mu a c st (st_q P st) k p = 0.
+    let st := mkPES (fun k => - (a * Uk k) * mu) (fun _ => 0)
+                    (fun k => Tb k + tau k * (mu * mu)) (cst0 + beta * (mu * mu)) (fun _ => q0) in
+    let oro := gam * (mu * mu) in
+    forall k,
+      spec_vort_tend dlon dmu mu a c Omega Rv st k = 0 /\
+      spec_div_tend dlon dmu mu a c Omega grav Rv oro st k = 0 /\
+      spec_temp_tend dlon dmu mu a c Rv Cpv st k = 0 /\
+      spec_lnps_tend dlon dmu mu a c st = 0 /\
+      spec_tracer_tend dlon dmu mu a c st (st_q st) k = 0.
   Proof.
-    intros mf C1 C2 st oro k p.
-    set (wf := fun (k : nat) (_ : P) => Uk k). set (wf' := fun (_ : nat) (_ : P) => 0).
-    set (lam' := fun q : P => beta * (two * mu q)).
-    set (ph' := fun (k : nat) (q : P) =>
-                  two * mu q * (grav * gam + mf * sumn (cK c) (fun j => geo_weights (cK c) (cR c) (cls c) k j * tau j))).
-    assert (Hchi : forall k p, st_chi P st k p = 0) by reflexivity.
-    assert (Hw : forall k, zd (wf k) (wf' k)) by (intros j; exact (zd_const (Uk j))).
-    assert (Hpsi : forall k, zd (st_psi P st k) (fun p => - (a * wf k p))).
-    { intros j. apply (zd_ext (fun q => (- (a * Uk j)) * mu q) _ (fun q => (- (a * Uk j)) * 1)).
-      - reflexivity. - intros; unfold wf; ring. - apply zd_scal, zd_mu. }
-    assert (Hmm : zd (fun q => mu q * mu q) (fun q => two * mu q)).
-    { apply (zd_ext (fun q => mu q * mu q) _ (fun q => 1 * mu q + mu q * 1)); [reflexivity|intros; unfold two; ring|].
-      apply zd_mul; apply zd_mu. }
-    assert (HT : forall k, zon (st_T P st k)).
-    { intros j. apply zon_add; [apply zon_const|]. apply zon_mul; [apply zon_const|apply Hmm]. }
-    assert (Hq : forall k, zon (st_q P st k)) by (intros j; exact (zon_const q0)).
-    assert (Hlnps : zd (st_lnps P st) lam').
-    { apply (zd_ext (fun q => cst + beta * (mu q * mu q)) _ (fun q => 0 + beta * (two * mu q))); [reflexivity|intros; unfold lam'; ring|].
-      apply zd_add; [apply zd_const|]. apply zd_scal, Hmm. }
-    assert (Hphi : forall k, zd (phi P c grav Rv oro st k) (ph' k)).
+    intros HOm Hg Hq0 Hc0 Hbeta Hgam HRc Heps Hls HU HTb Htau mf C1 C2 st oro k.
+    set (wf := fun (k : nat) => Uk k). set (wf' := fun (_ : nat) => (@f0 A o)).
+    set (lam' := beta * (two * mu)).
+    set (W := geo_weights (cK c) (cR c) (cls c)).
+    set (ph' := fun (k : nat) => two * mu * (grav * gam + mf * sumn (cK c) (fun j => W k j * tau j))).
+    assert (Hmf : cst mf).
+    { unfold mf. apply cst_add; [apply cst_1|]. apply cst_mul; [|exact Hq0]. apply cst_sub; [exact Heps|apply cst_1]. }
+    assert (HW : forall i j, cst (W i j)) by (intros; apply cst_geo_weights; assumption).
+    assert (Hchi : forall k, st_chi st k = 0) by reflexivity.
+    assert (Hw : forall k, zd (wf k) (wf' k)) by (intros j; exact (zd_cst (Uk j) (HU j))).
+    assert (Hpsi : forall k, zd (st_psi st k) (- (a * wf k))).
+    { intros j. apply (zd_eq _ ((- (a * Uk j)) * 1)); [unfold wf; ring|].
+      apply zd_scal; [apply cst_opp, cst_mul; [apply cst_a|apply HU]|apply zd_mu]. }
+    assert (HTz : forall j, zd (st_T st j) (0 + tau j * (two * mu))).
+    { intros j. apply zd_add; [apply zd_cst, HTb|]. apply zd_scal; [apply Htau|apply zd_mumu]. }
+    assert (HT : forall k, zon (st_T st k)) by (intros j; apply (HTz j)).
+    assert (Hq : forall k, zon (st_q st k)) by (intros j; exact (zon_cst q0 Hq0)).
+    assert (Hlnps : zd (st_lnps st) lam').
+    { apply (zd_eq _ (0 + beta * (two * mu))); [unfold lam'; ring|].
+      apply zd_add; [now apply zd_cst|]. apply zd_scal; [exact Hbeta|apply zd_mumu]. }
+    assert (Hphi : forall k, zd (phi c grav Rv oro st k) (ph' k)).
     { intros j.
-      apply (zd_ext (fun q => grav * (gam * (mu q * mu q))
-                              + sumn (cK c) (fun i => geo_weights (cK c) (cR c) (cls c) j i * ((Tb i + tau i * (mu q * mu q)) * mf)))
-                    _ (fun q => grav * (gam * (two * mu q))
-                                + sumn (cK c) (fun i => geo_weights (cK c) (cR c) (cls c) j i * ((0 + tau i * (two * mu q)) * mf)))).
-      - intros q. reflexivity.
-      - intros q. unfold ph'.
-        rewrite (sumn_ext (cK c) _ (fun i => geo_weights (cK c) (cR c) (cls c) j i * (tau i * (two * mu q * mf))))
-          by (intros; ring).
-        rewrite sumn_pull. ring.
-      - apply zd_add; [apply zd_scal, zd_scal, Hmm|]. apply zd_sumn. intros i.
-        apply (zd_ext (fun q => mf * (Tb i + tau i * (mu q * mu q))) _ (fun q => mf * (0 + tau i * (two * mu q)))); try (intros; ring).
-        apply zd_scal. apply zd_add; [apply zd_const|]. apply zd_scal, Hmm. }
-    assert (Hbal : forall k p, ph' k p + cR c * Tv P c Rv st k p * lam' p
-                               = - (mu p * wf k p * (wf k p + two * a * Omega))).
-    { intros j q. unfold ph', Tv, lam', wf. cbn [st_T st_q st]. fold mf.
-      set (S := sumn (cK c) (fun i => geo_weights (cK c) (cR c) (cls c) j i * tau i)).
-      transitivity (mu q * (Uk j * (Uk j + two * a * Omega) + two * (grav * gam + mf * S) + two * (cR c * mf * Tb j * beta))
-                    + two * cR c * mf * (mu q * mu q * mu q) * (beta * tau j)
-                    - mu q * Uk j * (Uk j + two * a * Omega)); [ring|].
-      unfold S. rewrite C1, C2. ring. }
+      assert (Z : zd (grav * (gam * (mu * mu)) + sumn (cK c) (fun i => W j i * ((Tb i + tau i * (mu * mu)) * mf)))
+                     (grav * (gam * (two * mu))
+                      + sumn (cK c) (fun i => W j i * ((0 + tau i * (two * mu)) * mf + (Tb i + tau i * (mu * mu)) * 0)))).
+      { apply zd_add; [apply zd_scal; [exact Hg|]; apply zd_scal; [exact Hgam|apply zd_mumu]|].
+        apply zd_sumn; [apply HW|]. intros i. apply zd_mul; [apply (HTz i)|now apply zd_cst]. }
+      apply (zd_eq _ _ (ph' j)) in Z; [exact Z|].
+      unfold ph'.
+      rewrite (sumn_ext_ring (cK c) _ (fun i => W j i * (tau i * (two * mu * mf)))) by (intros; ring).
+      rewrite sumn_pull. ring. }
+    assert (Hbal : forall k, ph' k + cR c * Tv c Rv st k * lam' = - (mu * wf k * (wf k + two * a * Omega))).
+    { intros j. unfold ph', Tv, lam', wf. cbn [st_T st_q st]. fold mf.
+      set (S := sumn (cK c) (fun i => W j i * tau i)).
+      transitivity (mu * (Uk j * (Uk j + two * a * Omega) + two * (grav * gam + mf * S) + two * (cR c * mf * Tb j * beta))
+                    + two * cR c * mf * (mu * mu * mu) * (beta * tau j)
+                    - mu * Uk j * (Uk j + two * a * Omega)); [ring|].
+      unfold S, W. rewrite C1, C2. ring. }
+    pose proof (zon_cst _ HOm) as ZO. pose proof (zon_cst _ HRc) as ZR. pose proof (zon_cst _ Heps) as ZE.
     repeat split.
-    - apply (pe_zonal_vorticity_steady c Omega Rv st wf wf' lam' Hchi Hw Hpsi HT Hq Hlnps).
+    - apply (pe_zonal_vorticity_steady c Omega Rv st wf wf' lam' ZO ZR ZE Hchi Hw Hpsi HT Hq Hlnps).
     - apply (pe_zonal_divergence_steady c Omega grav Rv oro st wf wf' ph' lam' Hchi Hw Hpsi Hlnps Hphi Hbal).
     - apply (pe_zonal_temperature_steady c Rv Cpv st wf lam' Hchi Hpsi HT Hlnps).
     - apply (pe_zonal_lnps_steady c st wf lam' Hchi Hpsi Hlnps).
     - apply (pe_zonal_tracer_steady c st wf lam' Hchi Hpsi Hlnps). apply Hq.
   Qed.
 End Ring.
+
+(** * 4. A concrete commutative differential ring: formal power series in mu over Qc
+    (coefficient sequences, Cauchy product), d/dlon = 0, cos(lat) d/dlat = (1 - mu^2) d/dmu,
+    sec^2 = 1 + mu^2 + mu^4 + ...  Every hypothesis of section 3 holds in it (non-vacuity). *)
+From Dino Require Import Base.Inst.
+From Coq Require Import Qcanon FunctionalExtensionality.
+Local Open Scope F_scope.
+
+Section PowerSeries.
+  Add Field FFqc : (@field_c Qc QcOps QcField).
+
+  Definition ps := nat -> Qc.
+  Definition ps_c (k : Qc) : ps := fun n => if Nat.eqb n 0 then k else 0.
+  Definition ps_add (f g : ps) : ps := fun n => f n + g n.
+  Definition ps_opp (f : ps) : ps := fun n => - f n.
+  Definition ps_sub (f g : ps) : ps := fun n => f n - g n.
+  Definition ps_mul (f g : ps) : ps := fun n => sumn (S n) (fun i => f i * g (n - i)%nat).
+  Definition ps_X : ps := fun n => if Nat.eqb n 1 then 1 else 0.
+  Definition ps_s2 : ps := fun n => if Nat.even n then 1 else 0.
+  Fixpoint nq (n : nat) : Qc := match n with O => 0%F | S k => (nq k + 1)%F end.
+  (** d/dmu *)
+  Definition ps_d (f : ps) : ps := fun n => nq (S n) * f (S n).
+  Definition ps_c2 : ps := ps_sub (ps_c 1%F) (ps_mul ps_X ps_X).
+  Definition ps_dmu (f : ps) : ps := ps_mul ps_c2 (ps_d f).
+  Definition ps_dlon (f : ps) : ps := ps_c 0%F.
+  (** inverse: of 1 - mu^2 it is sec^2, otherwise the constant 1/f(0) (an inverse for constant series) *)
+  Definition ps_inv (f : ps) : ps := if feqb (f 2%nat) (- (1))%F then ps_s2 else ps_c (1 / f 0%nat)%F.
+
+  Lemma ps_ext (f g : ps) : (forall n, f n = g n) -> f = g.
+  Proof. intros H. apply functional_extensionality. exact H. Qed.
+
+  Lemma ps_c_eqb i k : ps_c k i = Sums.delta 0%nat i * k.
+  Proof. destruct i as [|i]; [change (k = 1 * k)|change ((0 : Qc) = 0 * k)]; ring. Qed.
+
+  Lemma ps_mul_1_l f : ps_mul (ps_c 1%F) f = f.
+  Proof.
+    apply ps_ext. intros n. unfold ps_mul.
+    rewrite (sumn_ext (S n) _ (fun i => Sums.delta 0%nat i * f (n - i)%nat)) by (intros; cbv beta; rewrite ps_c_eqb; ring).
+    rewrite sumn_delta_l by lia. now rewrite Nat.sub_0_r.
+  Qed.
+  Lemma ps_mul_comm f g : ps_mul f g = ps_mul g f.
+  Proof.
+    apply ps_ext. intros n. unfold ps_mul. rewrite sumn_rev. apply sumn_ext. intros i Hi.
+    replace (S n - 1 - i)%nat with (n - i)%nat by lia. replace (n - (n - i))%nat with i by lia. ring.
+  Qed.
+  Lemma ps_distr_l f g h : ps_mul (ps_add f g) h = ps_add (ps_mul f h) (ps_mul g h).
+  Proof.
+    apply ps_ext. intros n. unfold ps_mul, ps_add. rewrite <- sumn_add. apply sumn_ext. intros; ring.
+  Qed.
+
+  Lemma sumn_shift_mask n i (Fk : nat -> Qc) :
+    (i <= n)%nat ->
+    sumn (S n) (fun k => if Nat.leb i k then Fk k else 0) = sumn (S n - i) (fun j => Fk (i + j)%nat).
+  Proof.
+    intros Hi. replace (S n) with (i + (S n - i))%nat at 1 by lia. rewrite sumn_split.
+    rewrite sumn_zero by (intros k Hk; destruct (Nat.leb_spec i k); [lia|reflexivity]).
+    rewrite (sumn_ext (S n - i) _ (fun j => Fk (i + j)%nat))
+      by (intros j _; destruct (Nat.leb_spec i (i + j)); [reflexivity|lia]).
+    ring.
+  Qed.
+
+  Lemma ps_mul_assoc f g h : ps_mul f (ps_mul g h) = ps_mul (ps_mul f g) h.
+  Proof.
+    apply ps_ext. intros n. unfold ps_mul.
+    set (Tt := fun i j : nat => f i * g j * h (n - i - j)%nat).
+    transitivity (sumn (S n) (fun i => sumn (S n - i) (fun j => Tt i j))).
+    - apply sumn_ext. intros i Hi. replace (S n - i)%nat with (S (n - i)) by lia.
+      rewrite <- sumn_scal_l. apply sumn_ext. intros j _. unfold Tt. ring.
+    - symmetry.
+      rewrite (sumn_ext (S n) _ (fun k => sumn (S n) (fun i => if Nat.ltb i (S k) then f i * g (k - i)%nat * h (n - k)%nat else 0))).
+      2:{ intros k Hk. rewrite sumn_prefix_mask by lia. rewrite <- sumn_scal_r. reflexivity. }
+      rewrite sumn_exchange. apply sumn_ext. intros i Hi.
+      rewrite (sumn_ext (S n) _ (fun k => if Nat.leb i k then f i * g (k - i)%nat * h (n - k)%nat else 0)).
+      2:{ intros k _. destruct (Nat.ltb_spec i (S k)), (Nat.leb_spec i k); try lia; reflexivity. }
+      rewrite sumn_shift_mask by lia. apply sumn_ext. intros j _. unfold Tt.
+      replace (i + j - i)%nat with j by lia. replace (n - (i + j))%nat with (n - i - j)%nat by lia. reflexivity.
+  Qed.
+
+  #[export] Instance psOps : Ops ps := {|
+    f0 := ps_c 0%F; f1 := ps_c 1%F; fadd := ps_add; fmul := ps_mul; fsub := ps_sub; fopp := ps_opp;
+    fdiv x y := ps_mul x (ps_inv y); finv := ps_inv; fofZ z := ps_c (fofZ z);
+    fleb _ _ := true; feqb _ _ := true |}.
+
+  Lemma ps_ring_raw : ring_theory (ps_c 0%F) (ps_c 1%F) ps_add ps_mul ps_sub ps_opp (@eq ps).
+  Proof.
+    constructor.
+    - intros f. apply ps_ext. intros n. unfold ps_add, ps_c. destruct (Nat.eqb n 0); ring.
+    - intros f g. apply ps_ext. intros n. unfold ps_add. ring.
+    - intros f g h. apply ps_ext. intros n. unfold ps_add. ring.
+    - exact ps_mul_1_l.
+    - exact ps_mul_comm.
+    - exact ps_mul_assoc.
+    - exact ps_distr_l.
+    - intros f g. apply ps_ext. intros n. unfold ps_sub, ps_add, ps_opp. ring.
+    - intros f. apply ps_ext. intros n. unfold ps_add, ps_opp, ps_c. destruct (Nat.eqb n 0); ring.
+  Qed.
+  Lemma ps_ring : ring_theory (@f0 ps psOps) f1 fadd fmul fsub fopp (@eq ps).
+  Proof. exact ps_ring_raw. Qed.
+  Add Ring psR : ps_ring_raw.
+
+  Notation q0 := (@f0 Qc QcOps).
+  Notation q1 := (@f1 Qc QcOps).
+
+  Lemma ps_c_add x y : ps_add (ps_c x) (ps_c y) = ps_c (x + y).
+  Proof.
+    apply ps_ext. intros n. destruct n; [change (x + y = x + y)|change (q0 + q0 = q0)]; ring.
+  Qed.
+  Lemma ps_c_mul_l x f n : ps_mul (ps_c x) f n = x * f n.
+  Proof.
+    unfold ps_mul.
+    rewrite (sumn_ext (S n) _ (fun i => Sums.delta 0%nat i * (x * f (n - i)%nat))) by (intros; cbv beta; rewrite ps_c_eqb; ring).
+    rewrite sumn_delta_l by lia. now rewrite Nat.sub_0_r.
+  Qed.
+  Lemma ps_c_mul x y : ps_mul (ps_c x) (ps_c y) = ps_c (x * y).
+  Proof.
+    apply ps_ext. intros n. rewrite ps_c_mul_l.
+    destruct n; [change (x * y = x * y)|change (x * q0 = q0)]; ring.
+  Qed.
+  Lemma ps_c_opp x : ps_opp (ps_c x) = ps_c (- x).
+  Proof. apply ps_ext. intros n. destruct n; [change (- x = - x)|change (- q0 = q0)]; ring. Qed.
+  Lemma ps_d_c k : ps_d (ps_c k) = ps_c q0.
+  Proof.
+    apply ps_ext. intros n. change (nq (S n) * q0 = ps_c q0 n).
+    destruct n as [|m]; [change (nq 1%nat * q0 = q0)|change (nq (S (S m)) * q0 = q0)]; ring.
+  Qed.
+  Lemma ps_d_add f g : ps_d (ps_add f g) = ps_add (ps_d f) (ps_d g).
+  Proof.
+    apply ps_ext. intros n.
+    change (nq (S n) * (f (S n) + g (S n)) = nq (S n) * f (S n) + nq (S n) * g (S n)). ring.
+  Qed.
+  Lemma nq_add i j : nq (i + j) = nq i + nq j.
+  Proof.
+    induction i as [|i IH]; [change (nq j = q0 + nq j); ring|].
+    change (nq (i + j) + q1 = (nq i + q1) + nq j). rewrite IH. ring.
+  Qed.
+  Lemma ps_d_leib f g : ps_d (ps_mul f g) = ps_add (ps_mul (ps_d f) g) (ps_mul f (ps_d g)).
+  Proof.
+    apply ps_ext. intros n. unfold ps_d, ps_mul, ps_add.
+    rewrite <- sumn_scal_l.
+    rewrite (sumn_ext (S (S n)) _ (fun i => nq i * (f i * g (S n - i)%nat) + nq (S n - i) * (f i * g (S n - i)%nat))).
+    2:{ intros i Hi. cbv beta.
+        assert (E : nq (S n) = nq i + nq (S n - i)) by (rewrite <- nq_add; f_equal; lia).
+        rewrite E. ring. }
+    rewrite sumn_add. f_equal.
+    - rewrite sumn_S_first. change (nq 0%nat) with q0.
+      rewrite (sumn_ext (S n) _ (fun i => nq (S i) * f (S i) * g (n - i)%nat))
+        by (intros i _; cbv beta; change (S n - S i)%nat with (n - i)%nat; ring).
+      ring.
+    - change (sumn (S (S n)) (fun i => nq (S n - i) * (f i * g (S n - i)%nat)))
+        with (sumn (S n) (fun i => nq (S n - i) * (f i * g (S n - i)%nat))
+              + nq (S n - S n) * (f (S n) * g (S n - S n)%nat)).
+      replace (S n - S n)%nat with 0%nat by lia. change (nq 0%nat) with q0.
+      rewrite (sumn_ext (S n) _ (fun i => f i * (nq (S (n - i)) * g (S (n - i)))))
+        by (intros i Hi; cbv beta; replace (S n - i)%nat with (S (n - i)) by lia; ring).
+      ring.
+  Qed.
+
+  Lemma ps_X_delta i : ps_X i = Sums.delta 1%nat i.
+  Proof. destruct i as [|[|i]]; reflexivity. Qed.
+  Lemma ps_X_mul f n : ps_mul ps_X f n = match n with O => q0 | S m => f m end.
+  Proof.
+    unfold ps_mul. destruct n as [|m].
+    - change (q0 + q0 * f 0%nat = q0). ring.
+    - rewrite (sumn_ext (S (S m)) _ (fun i => Sums.delta 1%nat i * f (S m - i)%nat)) by (intros; cbv beta; now rewrite ps_X_delta).
+      rewrite sumn_delta_l by lia. f_equal. lia.
+  Qed.
+  Lemma ps_s2c2 : ps_mul ps_s2 ps_c2 = ps_c q1.
+  Proof.
+    transitivity (ps_sub ps_s2 (ps_mul ps_X (ps_mul ps_X ps_s2))); [unfold ps_c2; ring|].
+    apply ps_ext. intros n. unfold ps_sub. rewrite ps_X_mul. destruct n as [|[|m]].
+    - change (q1 - q0 = q1). ring.
+    - rewrite ps_X_mul. change (q0 - q0 = q0). ring.
+    - rewrite ps_X_mul. change (ps_s2 m - ps_s2 m = q0). ring.
+  Qed.
+
+  Lemma ps_inv_c k : ps_inv (ps_c k) = ps_c (q1 / k).
+  Proof.
+    unfold ps_inv. replace (feqb (ps_c k 2%nat) (- q1)) with false by (vm_compute; reflexivity). reflexivity.
+  Qed.
+  Lemma ps_inv_c2 : ps_inv ps_c2 = ps_s2.
+  Proof.
+    unfold ps_inv. replace (feqb (ps_c2 2%nat) (- q1)) with true by (vm_compute; reflexivity). reflexivity.
+  Qed.
+
+  (** *** the hypotheses of section 3 in this ring: mu = X, radius a = 2 *)
+  Definition ps_a : ps := ps_c (q1 + q1).
+  Lemma qc_half : (q1 / (q1 + q1)) * (q1 + q1) = q1.
+  Proof. apply Qc_is_canon. vm_compute. reflexivity. Qed.
+  Lemma psH_div_def : forall x y : ps, x / y = x * finv y.
+  Proof. reflexivity. Qed.
+  Lemma psH_inv_a : finv ps_a * ps_a = 1.
+  Proof.
+    change (ps_mul (ps_inv (ps_c (q1 + q1))) (ps_c (q1 + q1)) = ps_c q1).
+    rewrite ps_inv_c, ps_c_mul. f_equal. exact qc_half.
+  Qed.
+  Lemma psH_inv_c2 : finv (cos2 ps_X) * cos2 ps_X = 1.
+  Proof. change (ps_mul (ps_inv ps_c2) ps_c2 = ps_c q1). rewrite ps_inv_c2. exact ps_s2c2. Qed.
+  Lemma psH_inv_two : finv (@two ps psOps) * two = 1.
+  Proof.
+    change (ps_mul (ps_inv (ps_add (ps_c q1) (ps_c q1))) (ps_add (ps_c q1) (ps_c q1)) = ps_c q1).
+    rewrite ps_c_add, ps_inv_c, ps_c_mul. f_equal. exact qc_half.
+  Qed.
+  Lemma psH_dlon_add : forall x y : ps, ps_dlon (x + y) = ps_dlon x + ps_dlon y.
+  Proof. intros. change (ps_c q0 = ps_add (ps_c q0) (ps_c q0)). ring. Qed.
+  Lemma psH_dlon_leib : forall x y : ps, ps_dlon (x * y) = ps_dlon x * y + x * ps_dlon y.
+  Proof. intros. change (ps_c q0 = ps_add (ps_mul (ps_c q0) y) (ps_mul x (ps_c q0))). ring. Qed.
+  Lemma psH_dmu_add : forall x y : ps, ps_dmu (x + y) = ps_dmu x + ps_dmu y.
+  Proof.
+    intros. change (ps_mul ps_c2 (ps_d (ps_add x y)) = ps_add (ps_mul ps_c2 (ps_d x)) (ps_mul ps_c2 (ps_d y))).
+    rewrite ps_d_add. ring.
+  Qed.
+  Lemma psH_dmu_leib : forall x y : ps, ps_dmu (x * y) = ps_dmu x * y + x * ps_dmu y.
+  Proof.
+    intros. change (ps_mul ps_c2 (ps_d (ps_mul x y))
+                    = ps_add (ps_mul (ps_mul ps_c2 (ps_d x)) y) (ps_mul x (ps_mul ps_c2 (ps_d y)))).
+    rewrite ps_d_leib. ring.
+  Qed.
+  Lemma ps_dmu_c k : ps_dmu (ps_c k) = ps_c q0.
+  Proof. unfold ps_dmu. rewrite ps_d_c. ring. Qed.
+  Lemma psH_commute : forall x : ps, ps_dlon (ps_dmu x) = ps_dmu (ps_dlon x).
+  Proof. intros. unfold ps_dlon. now rewrite ps_dmu_c. Qed.
+  Lemma psH_dlon_mu : ps_dlon ps_X = 0. Proof. reflexivity. Qed.
+  Lemma ps_d_X : ps_d ps_X = ps_c q1.
+  Proof.
+    apply ps_ext. intros n. destruct n as [|m].
+    - change ((q0 + q1) * q1 = q1). ring.
+    - change (nq (S (S m)) * q0 = q0). ring.
+  Qed.
+  Lemma psH_dmu_mu : ps_dmu ps_X = cos2 ps_X.
+  Proof. unfold ps_dmu. rewrite ps_d_X. change (ps_mul ps_c2 (ps_c q1) = ps_c2). ring. Qed.
+  Lemma psH_dlon_a : ps_dlon ps_a = 0. Proof. reflexivity. Qed.
+  Lemma psH_dmu_a : ps_dmu ps_a = 0. Proof. apply ps_dmu_c. Qed.
+  (** the derivation is not trivial: cos(lat) d(mu)/dlat = 1 - mu^2 <> 0 *)
+  Lemma ps_dmu_nontrivial : ps_dmu ps_X <> 0.
+  Proof.
+    rewrite psH_dmu_mu. intro H. assert (E : cos2 ps_X 0%nat = (@f0 ps psOps) 0%nat) by (now rewrite H).
+    vm_compute in E. discriminate E.
+  Qed.
+  Lemma ps_cst_c k : cst ps_dlon ps_dmu (ps_c k).
+  Proof. split; [reflexivity|apply ps_dmu_c]. Qed.
+  Lemma ps_div_c x y : ps_c x / ps_c y = ps_c (x * (q1 / y)).
+  Proof. change (ps_mul (ps_c x) (ps_inv (ps_c y)) = ps_c (x * (q1 / y))). now rewrite ps_inv_c, ps_c_mul. Qed.
+  Lemma ps_mul_0_r x : ps_mul x (ps_c q0) = ps_c q0.
+  Proof. ring. Qed.
+End PowerSeries.
+
+Ltac ps_hyps :=
+  first [exact ps_ring | exact psH_div_def | exact psH_inv_a | exact psH_inv_c2 | exact psH_inv_two
+        | exact psH_dlon_add | exact psH_dmu_add | exact psH_dlon_leib | exact psH_dmu_leib | exact psH_commute
+        | exact psH_dlon_mu | exact psH_dmu_mu | exact psH_dlon_a | exact psH_dmu_a | apply ps_cst_c
+        | (intros; apply ps_cst_c) | (intros; apply zon_cst; apply ps_cst_c) ].
